@@ -8,6 +8,12 @@ Part B: witness theorems: the implementation model as on the pinned tree (`Cfg.a
 Part C: the repaired variant refines `Reg` on every sequential run (`seq_refinement`, all operation lists).
 Part D: close effects under ALL interleavings (any number of threads, any programs, any schedule, any
         variant): resources are released at most once (`close_effects_once_partial`).
+Part F: the repaired variant is linearizable w.r.t. `Reg` under ALL interleavings (any number of threads, any
+        programs, any schedule, atomic-action granularity), for histories that respect the handle discipline of
+        the real API (`conc_linearizable`; forward simulation `action` / `conc_step_sim` with one linearization
+        action per operation); witnesses that the discipline and the repairs are needed
+        (`stillborn_visible_witness`, `refused_record_witness`, `asis_not_linearizable_witness`), decided by a
+        complete search for linearizations (`linSearch_complete`, `not_linearizable_of_search`).
 -/
 import Wz.Proofs.C10_Refine
 import Wz.Gen.C10Sections
@@ -1067,5 +1073,2093 @@ releases the resources and does not let a failing release skip anything: the nam
 find the instance whatever `ensureResourcesClosed` returns (the model's `mDel` before `mRes`). -/
 theorem close_unregisters_before_releasing :
     Wz.Gen.Shapes.get "c10.close_tail" = some "_ = m.s.deleteModule(m) ;; return m.ensureResourcesClosed(ctx)" := by decide
+
+/-! ## Part F: linearizability of the repaired variant under all interleavings -/
+
+/-! ### the abstraction with ghost sets -/
+
+/-- Abstraction of one instance: it counts as closed also while it is `dy`ing (created by an instantiate that
+lost the name race: the registry records it closed from the start, the implementation closes it two actions
+later). -/
+def absI (dy : List Nat) (i : Inst) : Mod := ⟨i.h, i.name, i.closed.isNone && !decide (i.h ∈ dy)⟩
+
+/-- Instances the registry knows: all but the `hid`den ones (created by an instantiate that found the store
+closed: the registry refuses it without a record). -/
+def vis (hid : List Nat) (l : List Inst) : List Inst := l.filter (fun i => !decide (i.h ∈ hid))
+
+def absG (hid dy : List Nat) (s : Impl) : Reg := ⟨(vis hid s.insts).map (absI dy), s.rtClosed.isSome⟩
+
+theorem absG_nil (s : Impl) : absG [] [] s = abs s := by
+  have : absI [] = absInst := by funext i; simp [absI, absInst]
+  have hf : ∀ l : List Inst, l.filter (fun _ => true) = l := fun l => by induction l <;> simp_all
+  simp [absG, abs, vis, this, hf]
+
+theorem mem_vis {hid : List Nat} {l : List Inst} {i : Inst} : i ∈ vis hid l ↔ i ∈ l ∧ i.h ∉ hid := by
+  simp [vis, List.mem_filter]
+
+theorem vis_updInst (hid : List Nat) (h : Nat) (f : Inst → Inst) (hf : ∀ i, (f i).h = i.h) (l : List Inst) :
+    vis hid (updInst h f l) = updInst h f (vis hid l) := by
+  induction l with
+  | nil => rfl
+  | cons a l ih =>
+    simp only [vis] at ih ⊢
+    simp only [updInst, List.filter_cons]
+    by_cases ha : (a.h == h) = true
+    · simp only [ha, if_true, hf]
+      by_cases hv : (!decide (a.h ∈ hid)) = true
+      · simp only [hv, if_true, updInst, ha, ih]
+      · simp [hv, ih]
+    · simp only [ha]
+      by_cases hv : (!decide (a.h ∈ hid)) = true
+      · simp [hv, updInst, ha, ih]
+      · simp [hv, ih]
+
+theorem updInst_not_mem (h : Nat) (f : Inst → Inst) (l : List Inst) (hh : ∀ i ∈ l, i.h ≠ h) :
+    updInst h f l = l := by
+  apply updInst_not_has
+  simp only [List.any_eq_false]
+  intro i hi; simpa using hh i hi
+
+theorem map_absI_updInst_same (dy : List Nat) (h : Nat) (f : Inst → Inst)
+    (hf : ∀ i, i.h = h → absI dy (f i) = absI dy i) (l : List Inst) :
+    (updInst h f l).map (absI dy) = l.map (absI dy) := by
+  induction l with
+  | nil => rfl
+  | cons a l ih =>
+    simp only [updInst, List.map_cons, ih]
+    by_cases ha : (a.h == h) = true
+    · simp [ha, hf a (by simpa using ha)]
+    · simp [ha]
+
+theorem map_absI_updInst_close (dy : List Nat) (h c : Nat) (l : List Inst) :
+    (updInst h (fun i => { i with closed := some c }) l).map (absI dy) = closeMods h (l.map (absI dy)) := by
+  induction l with
+  | nil => rfl
+  | cons a l ih =>
+    simp only [updInst, List.map_cons, closeMods, ih]
+    by_cases ha : (a.h == h) = true <;> simp [ha, absI]
+
+theorem absI_ensureRes (dy : List Nat) (i : Inst) : absI dy (ensureRes i) = absI dy i := by
+  simp [absI, ensureRes_closed, ensureRes_h]
+  unfold ensureRes
+  cases hn : i.notifier <;> cases hs : i.sys <;> simp [hs]
+
+theorem has_iff_mem (s : Impl) (h : Nat) : s.has h = true ↔ ∃ i ∈ s.insts, i.h = h := by
+  simp [Impl.has, List.any_eq_true]
+
+theorem has_false_iff (s : Impl) (h : Nat) : s.has h = false ↔ ∀ i ∈ s.insts, i.h ≠ h := by
+  simp [Impl.has, List.any_eq_false]
+
+theorem absG_has (hid dy : List Nat) (s : Impl) (h : Nat) :
+    (absG hid dy s).has h = (s.has h && !decide (h ∈ hid)) := by
+  rw [Bool.eq_iff_iff]
+  simp only [has_iff, absG, List.mem_map, Bool.and_eq_true, has_iff_mem, mem_vis]
+  constructor
+  · rintro ⟨m, ⟨i, ⟨hi, hv⟩, rfl⟩, e⟩
+    have e' : i.h = h := e
+    exact ⟨⟨i, hi, e'⟩, by simpa [e'] using hv⟩
+  · rintro ⟨⟨i, hi, e⟩, hv⟩
+    exact ⟨absI dy i, ⟨i, ⟨hi, by simpa [e] using hv⟩, rfl⟩, e⟩
+
+/-! ### the simulation invariant with ghost sets -/
+
+structure GInv (hid dy : List Nat) (s : Impl) : Prop where
+  rt : s.names = none ↔ s.rtClosed.isSome = true
+  nm : ∀ m, s.names = some m → ∀ n, n ≠ 0 → nameLookup n m = (absG hid dy s).owner n
+  lst : ∀ i ∈ s.insts, i.closed = none → i.h ∉ hid → i.h ∉ dy → i.h ∈ s.list
+  inv : RegInv (absG hid dy s)
+  nd : (s.insts.map (·.h)).Nodup
+  hidIn : ∀ h ∈ hid, s.has h = true
+  dyIn : ∀ h ∈ dy, s.has h = true
+
+theorem ginv_init : GInv [] [] Impl.init := by
+  refine ⟨good_init.rt, ?_, by simp [Impl.init], ?_, by simp [Impl.init], by simp, by simp⟩
+  · rw [absG_nil]; exact good_init.nm
+  · rw [absG_nil]; exact good_init.inv
+
+theorem insts_same_h' {l : List Inst} (hnd : (l.map (·.h)).Nodup) {i j : Inst} (hi : i ∈ l) (hj : j ∈ l)
+    (e : i.h = j.h) : i = j := by
+  induction l with
+  | nil => simp at hi
+  | cons a l ih =>
+    simp only [List.map_cons, List.nodup_cons] at hnd
+    simp only [List.mem_cons] at hi hj
+    rcases hi with rfl | hi <;> rcases hj with rfl | hj
+    · rfl
+    · exact absurd (List.mem_map.mpr ⟨j, hj, e.symm⟩) hnd.1
+    · exact absurd (List.mem_map.mpr ⟨i, hi, e⟩) hnd.1
+    · exact ih hnd.2 hi hj
+
+/-- a visible, open, not dying, named instance is the owner of its name -/
+theorem owner_of_openG {hid dy : List Nat} {s : Impl} (hg : GInv hid dy s) {i : Inst} (hi : i ∈ s.insts)
+    (ho : i.closed = none) (hh : i.h ∉ hid) (hd : i.h ∉ dy) (hn : i.name ≠ 0) :
+    (absG hid dy s).owner i.name = some i.h := by
+  have hmem : absI dy i ∈ (absG hid dy s).mods := by
+    simp only [absG]; exact List.mem_map_of_mem (mem_vis.mpr ⟨hi, hh⟩)
+  rw [owner_find hn]
+  cases hf : (absG hid dy s).mods.find? (fun m => m.isOpen && m.name == i.name) with
+  | none =>
+    have := List.find?_eq_none.mp hf (absI dy i) hmem
+    simp [absI, ho, hd] at this
+  | some m =>
+    have hm := List.mem_of_find?_eq_some hf
+    have hp := List.find?_some hf
+    simp only [Bool.and_eq_true, beq_iff_eq] at hp
+    have := hg.inv.oneOwner m hm (absI dy i) hmem hp.1
+      (by simp [absI, ho, hd]) (by rw [hp.2]; exact hn) (by rw [hp.2]; rfl)
+    simp only [Option.map_some]
+    exact congrArg some this
+
+/-- the owner of a name is a visible, open, not dying instance -/
+theorem owner_someG {hid dy : List Nat} {s : Impl} {n h : Nat} (ho : (absG hid dy s).owner n = some h) :
+    ∃ i ∈ s.insts, i.h = h ∧ i.closed = none ∧ h ∉ hid ∧ h ∉ dy ∧ i.name = n := by
+  have hn : n ≠ 0 := by intro e; simp [Reg.owner, e] at ho
+  rw [owner_find hn] at ho
+  obtain ⟨m, hfind, e⟩ : ∃ m, (absG hid dy s).mods.find? (fun m => m.isOpen && m.name == n) = some m ∧ m.h = h := by
+    simpa using ho
+  have hm := List.mem_of_find?_eq_some hfind
+  have hp := List.find?_some hfind
+  simp only [Bool.and_eq_true, beq_iff_eq] at hp
+  simp only [absG, List.mem_map] at hm
+  obtain ⟨i, hi, rfl⟩ := hm
+  obtain ⟨hi1, hi2⟩ := mem_vis.mp hi
+  have e' : i.h = h := e
+  have h1 : i.closed.isNone = true ∧ i.h ∉ dy := by simpa [absI] using hp.1
+  refine ⟨i, hi1, e', ?_, e' ▸ hi2, e' ▸ h1.2, hp.2⟩
+  cases hc : i.closed with
+  | none => rfl
+  | some v => simp [hc] at h1
+
+/-! ### linearization points, thread-local invariants, the per-action obligation -/
+
+/-- The result an operation is committed to once it is past its linearization action (`none` = not yet
+linearized). Only program counters reachable in the repaired variant matter. -/
+def post : Pc → Option Res
+  | .fCas e => some e
+  | .fDel e => some e
+  | .fRes e => some e
+  | .done e => some e
+  | .mRes => some .ok
+  | _ => none
+
+/-- The program counters an operation can be at in the repaired variant. -/
+def Compat : Op → Pc → Bool
+  | _, .done _ => true
+  | .compile, .cFail => true
+  | .compile, .cTypes => true
+  | .hostCompile _, .hFail _ => true
+  | .hostCompile _, .hTypes => true
+  | .instantiate _ _ _, .cFail => true
+  | .instantiate _ _ _, .cTypes => true
+  | .instantiate _ _ _, .hFail _ => true
+  | .instantiate _ _ _, .hTypes => true
+  | .instantiate _ _ _, .iFail => true
+  | .instantiate _ _ _, .iReg => true
+  | .instantiate _ _ _, .fCas e => e != .ok
+  | .instantiate _ _ _, .fDel e => e != .ok
+  | .instantiate _ _ _, .fRes e => e != .ok
+  | .lookup _, .look => true
+  | .closeModule _ _, .mCas => true
+  | .closeModule _ _, .mRes => true
+  | .closeRuntime _, .rCas => true
+  | .isClosed _, .isCl => true
+  | _, _ => false
+
+/-- before the instance record is created -/
+def preReg : Pc → Bool
+  | .cFail | .cTypes | .hFail _ | .hTypes | .iFail | .iReg => true
+  | _ => false
+
+/-- the failed-registration tail -/
+def fPhase : Pc → Bool
+  | .fCas _ | .fDel _ | .fRes _ => true
+  | _ => false
+
+/-- A handle the registry and the implementation agree on. -/
+def Safe (hid dy : List Nat) (s : Impl) (h : Nat) : Prop := s.has h = true ∧ h ∉ hid ∧ h ∉ dy
+
+/-- What an operation in progress needs from the shared state (all of it is stable under the actions of the
+other threads, given that instantiate handles are pairwise distinct). -/
+def TInv (hid dy : List Nat) (s : Impl) : Op → Pc → Prop
+  | .instantiate h _ _, pc =>
+      (preReg pc = true → s.has h = false) ∧
+      (fPhase pc = true → s.has h = true ∧ (h ∈ hid ∨ h ∈ dy)) ∧
+      (pc = .done .ok → Safe hid dy s h)
+  | .closeModule h _, pc => pc = .mCas → Safe hid dy s h
+  | .isClosed h, pc => pc = .isCl → Safe hid dy s h
+  | .lookup _, pc => ∀ h, pc = .done (.found h) → Safe hid dy s h
+  | _, _ => True
+
+/-- Ghost sets after an action: only a failing registration adds a handle. -/
+def ghostStep (s : Impl) (op : Op) (pc : Pc) (g : List Nat × List Nat) : List Nat × List Nat :=
+  match pc, op with
+  | .iReg, .instantiate h n _ =>
+    if s.has h then g else
+    match s.names with
+    | none => (h :: g.1, g.2)
+    | some nm => if n != 0 && (nameLookup n nm).isSome then (g.1, h :: g.2) else g
+  | _, _ => g
+
+/-- How one action relates the registry before and after: nothing happens before and after the linearization
+action; AT the linearization action the registry executes the whole operation and returns the result the
+operation is from then on committed to. -/
+def LinRel (r r' : Reg) (op : Op) : Option Res → Option Res → Prop
+  | none, none => r' = r
+  | none, some x => r.step op = (r', x)
+  | some x, y => y = some x ∧ r' = r
+
+/-- The obligation of one atomic action of one operation. -/
+structure Act (hid dy : List Nat) (s : Impl) (op : Op) (pc : Pc) : Prop where
+  ginv : GInv (ghostStep s op pc (hid, dy)).1 (ghostStep s op pc (hid, dy)).2 (stepOp Cfg.repaired s op pc).1
+  compat : Compat op (stepOp Cfg.repaired s op pc).2 = true
+  tinv : TInv (ghostStep s op pc (hid, dy)).1 (ghostStep s op pc (hid, dy)).2 (stepOp Cfg.repaired s op pc).1 op
+    (stepOp Cfg.repaired s op pc).2
+  lin : LinRel (absG hid dy s)
+    (absG (ghostStep s op pc (hid, dy)).1 (ghostStep s op pc (hid, dy)).2 (stepOp Cfg.repaired s op pc).1) op
+    (post pc) (post (stepOp Cfg.repaired s op pc).2)
+  hasMono : ∀ h, s.has h = true → (stepOp Cfg.repaired s op pc).1.has h = true
+  newH : ∀ h, (stepOp Cfg.repaired s op pc).1.has h = true →
+    s.has h = true ∨ (pc = .iReg ∧ ∃ n p, op = .instantiate h n p)
+  hidMono : ∀ h ∈ hid, h ∈ (ghostStep s op pc (hid, dy)).1
+  dyMono : ∀ h ∈ dy, h ∈ (ghostStep s op pc (hid, dy)).2
+  hidNew : ∀ h ∈ (ghostStep s op pc (hid, dy)).1, h ∈ hid ∨ s.has h = false
+  dyNew : ∀ h ∈ (ghostStep s op pc (hid, dy)).2, h ∈ dy ∨ s.has h = false
+
+/-- An action that changes neither the shared state nor the ghost sets. -/
+theorem Act.same {hid dy : List Nat} {s : Impl} {op : Op} {pc : Pc} (hg : GInv hid dy s)
+    (hs : (stepOp Cfg.repaired s op pc).1 = s) (hgh : ghostStep s op pc (hid, dy) = (hid, dy))
+    (hc : Compat op (stepOp Cfg.repaired s op pc).2 = true)
+    (ht : TInv hid dy s op (stepOp Cfg.repaired s op pc).2)
+    (hl : LinRel (absG hid dy s) (absG hid dy s) op (post pc) (post (stepOp Cfg.repaired s op pc).2)) :
+    Act hid dy s op pc := by
+  refine ⟨?_, hc, ?_, ?_, ?_, ?_, ?_, ?_, ?_, ?_⟩
+  · rw [hgh, hs]; exact hg
+  · rw [hgh, hs]; exact ht
+  · rw [hgh, hs]; exact hl
+  · rw [hs]; intro h hh; exact hh
+  · rw [hs]; intro h hh; exact Or.inl hh
+  · rw [hgh]; intro h hh; exact hh
+  · rw [hgh]; intro h hh; exact hh
+  · rw [hgh]; intro h hh; exact Or.inl hh
+  · rw [hgh]; intro h hh; exact Or.inl hh
+
+theorem Act.of_eq {hid dy : List Nat} {s : Impl} {op : Op} {pc : Pc} {s' : Impl} {pc' : Pc} {hid' dy' : List Nat}
+    (hstep : stepOp Cfg.repaired s op pc = (s', pc')) (hgh : ghostStep s op pc (hid, dy) = (hid', dy'))
+    (ginv : GInv hid' dy' s') (compat : Compat op pc' = true) (tinv : TInv hid' dy' s' op pc')
+    (lin : LinRel (absG hid dy s) (absG hid' dy' s') op (post pc) (post pc'))
+    (hasMono : ∀ h, s.has h = true → s'.has h = true)
+    (newH : ∀ h, s'.has h = true → s.has h = true ∨ (pc = .iReg ∧ ∃ n p, op = .instantiate h n p))
+    (hidMono : ∀ h ∈ hid, h ∈ hid') (dyMono : ∀ h ∈ dy, h ∈ dy')
+    (hidNew : ∀ h ∈ hid', h ∈ hid ∨ s.has h = false) (dyNew : ∀ h ∈ dy', h ∈ dy ∨ s.has h = false) :
+    Act hid dy s op pc := by
+  constructor <;> simp only [hstep, hgh] <;> assumption
+
+/-- same ghost sets, same set of handles -/
+theorem Act.of_eq_sameH {hid dy : List Nat} {s : Impl} {op : Op} {pc : Pc} {s' : Impl} {pc' : Pc}
+    (hstep : stepOp Cfg.repaired s op pc = (s', pc')) (hgh : ghostStep s op pc (hid, dy) = (hid, dy))
+    (ginv : GInv hid dy s') (compat : Compat op pc' = true) (tinv : TInv hid dy s' op pc')
+    (lin : LinRel (absG hid dy s) (absG hid dy s') op (post pc) (post pc'))
+    (hhas : ∀ h, s'.has h = s.has h) : Act hid dy s op pc :=
+  Act.of_eq hstep hgh ginv compat tinv lin (fun h hh => by rw [hhas]; exact hh)
+    (fun h hh => Or.inl (by rw [← hhas]; exact hh)) (fun _ hh => hh) (fun _ hh => hh)
+    (fun _ hh => Or.inl hh) (fun _ hh => Or.inl hh)
+
+/-! ### the actions that only read -/
+
+theorem absG_rtClosed (hid dy : List Nat) (s : Impl) : (absG hid dy s).rtClosed = s.rtClosed.isSome := rfl
+
+theorem act_compile {hid dy : List Nat} {s : Impl} (hg : GInv hid dy s) (pc : Pc)
+    (hc : Compat .compile pc = true) (hnd : ∀ r, pc ≠ .done r) : Act hid dy s .compile pc := by
+  cases pc <;> simp [Compat] at hc
+  · -- cFail
+    cases hrt : s.rtClosed with
+    | some c =>
+      exact Act.same hg (by simp [stepOp, hrt]) rfl (by simp [stepOp, hrt, Compat]) (by simp [TInv])
+        (by simp [stepOp, hrt, post, LinRel, Reg.step, absG])
+    | none =>
+      exact Act.same hg (by simp [stepOp, hrt]) rfl (by simp [stepOp, hrt, Compat]) (by simp [TInv])
+        (by simp [stepOp, hrt, post, LinRel])
+  · -- cTypes
+    cases hnm : s.names with
+    | none =>
+      have hrt := hg.rt.mp hnm
+      exact Act.same hg (by simp [stepOp]) rfl (by simp [stepOp, typesSection, hnm, Compat]) (by simp [TInv])
+        (by simp [stepOp, typesSection, hnm, post, LinRel, Reg.step, absG, hrt, Cfg.repaired])
+    | some nm =>
+      have hrt : s.rtClosed.isSome = false := by
+        cases hq : s.rtClosed.isSome with
+        | false => rfl
+        | true => have := hg.rt.mpr hq; simp [hnm] at this
+      exact Act.same hg (by simp [stepOp]) rfl (by simp [stepOp, typesSection, hnm, Compat, afterCompile]) (by simp [TInv])
+        (by simp [stepOp, typesSection, hnm, post, LinRel, Reg.step, absG, hrt, afterCompile])
+  · exact absurd rfl (hnd _)
+
+theorem rt_false_of_names {hid dy : List Nat} {s : Impl} (hg : GInv hid dy s) {nm : List (Nat × Nat)}
+    (hnm : s.names = some nm) : s.rtClosed.isSome = false := by
+  cases hq : s.rtClosed.isSome with
+  | false => rfl
+  | true => have := hg.rt.mpr hq; simp [hnm] at this
+
+theorem names_of_rt_none {hid dy : List Nat} {s : Impl} (hg : GInv hid dy s) (hrt : s.rtClosed = none) :
+    ∃ nm, s.names = some nm := by
+  cases hn : s.names with
+  | none => have := hg.rt.mp hn; simp [hrt] at this
+  | some m => exact ⟨m, rfl⟩
+
+theorem act_hostCompile {hid dy : List Nat} {s : Impl} (hg : GInv hid dy s) (f : Bool) (pc : Pc)
+    (hc : Compat (.hostCompile f) pc = true) (hnd : ∀ r, pc ≠ .done r) : Act hid dy s (.hostCompile f) pc := by
+  cases pc <;> simp [Compat] at hc
+  · -- hFail g
+    rename_i g
+    cases hrt : s.rtClosed with
+    | some c =>
+      exact Act.same hg (by simp [stepOp, hrt]) rfl (by simp [stepOp, hrt, Compat]) (by simp [TInv])
+        (by simp [stepOp, hrt, post, LinRel, Reg.step, absG])
+    | none =>
+      cases g with
+      | true =>
+        exact Act.same hg (by simp [stepOp, hrt]) rfl (by simp [stepOp, hrt, Compat]) (by simp [TInv])
+          (by simp [stepOp, hrt, post, LinRel])
+      | false =>
+        exact Act.same hg (by simp [stepOp, hrt]) rfl (by simp [stepOp, hrt, Compat, afterCompile]) (by simp [TInv])
+          (by simp [stepOp, hrt, post, LinRel, afterCompile, Reg.step, absG])
+  · -- hTypes
+    cases hnm : s.names with
+    | none =>
+      have hrt := hg.rt.mp hnm
+      exact Act.same hg (by simp [stepOp]) rfl (by simp [stepOp, typesSection, hnm, Compat]) (by simp [TInv])
+        (by simp [stepOp, typesSection, hnm, post, LinRel, Reg.step, absG, hrt, Cfg.repaired])
+    | some nm =>
+      have hrt := rt_false_of_names hg hnm
+      exact Act.same hg (by simp [stepOp]) rfl (by simp [stepOp, typesSection, hnm, Compat, afterCompile]) (by simp [TInv])
+        (by simp [stepOp, typesSection, hnm, post, LinRel, Reg.step, absG, hrt, afterCompile])
+  · exact absurd rfl (hnd _)
+
+theorem act_lookup {hid dy : List Nat} {s : Impl} (hg : GInv hid dy s) (n : Nat) (pc : Pc)
+    (hc : Compat (.lookup n) pc = true) (hnd : ∀ r, pc ≠ .done r) : Act hid dy s (.lookup n) pc := by
+  cases pc <;> simp [Compat] at hc
+  · -- look
+    by_cases hn : n = 0
+    · subst hn
+      exact Act.same hg (by simp [stepOp]) rfl (by simp [stepOp, Compat]) (by simp [TInv, stepOp])
+        (by simp [stepOp, post, LinRel, Reg.step, Reg.owner])
+    · have hn' : (n == 0) = false := by simpa using hn
+      cases hm : s.names with
+      | none =>
+        have hcl := hg.rt.mp hm
+        have hall := hg.inv.closedAll (by simpa [absG] using hcl)
+        have := owner_allClosed (absG hid dy s) n hall
+        exact Act.same hg (by simp [stepOp, hn', hm]) rfl (by simp [stepOp, Compat, hn', hm]) (by simp [TInv, stepOp, hn', hm])
+          (by simp [stepOp, post, LinRel, Reg.step, hn', hm, this])
+      | some m =>
+        have hl := hg.nm m hm n hn
+        cases ho : (absG hid dy s).owner n with
+        | none =>
+          rw [ho] at hl
+          exact Act.same hg (by simp [stepOp, hn', hm, hl]) rfl (by simp [stepOp, Compat, hn', hm, hl])
+            (by simp [TInv, stepOp, hn', hm, hl]) (by simp [stepOp, post, LinRel, Reg.step, hn', hm, hl, ho])
+        | some h =>
+          rw [ho] at hl
+          obtain ⟨i, hi, hih, _, hh1, hh2, _⟩ := owner_someG ho
+          have hsafe : Safe hid dy s h := ⟨(has_iff_mem s h).mpr ⟨i, hi, hih⟩, hh1, hh2⟩
+          exact Act.same hg (by simp [stepOp, hn', hm, hl]) rfl (by simp [stepOp, Compat, hn', hm, hl])
+            (by simp only [TInv, stepOp, hn', hm, hl]; intro h' e; simp at e; subst e; exact hsafe)
+            (by simp [stepOp, post, LinRel, Reg.step, hn', hm, hl, ho])
+  · exact absurd rfl (hnd _)
+
+theorem get_of_has {s : Impl} {h : Nat} (hh : s.has h = true) : ∃ i, s.get h = some i := by
+  cases hg : s.get h with
+  | none => have := (get_none_has s h).mp hg; simp [hh] at this
+  | some i => exact ⟨i, rfl⟩
+
+theorem isOpenG {hid dy : List Nat} {s : Impl} (hg : GInv hid dy s) {h : Nat} {i : Inst}
+    (hget : s.get h = some i) (hh : h ∉ hid) :
+    (absG hid dy s).isOpen h = (i.closed.isNone && !decide (h ∈ dy)) := by
+  obtain ⟨hi, hih⟩ := get_some hget
+  rw [Bool.eq_iff_iff]
+  simp only [Reg.isOpen, absG, List.any_eq_true, List.mem_map, Bool.and_eq_true, beq_iff_eq]
+  constructor
+  · rintro ⟨m, ⟨j, hj, rfl⟩, e1, e2⟩
+    have : j = i := insts_same_h' hg.nd (mem_vis.mp hj).1 hi (by rw [hih]; exact e1)
+    subst this
+    simpa [absI, hih] using e2
+  · intro e
+    exact ⟨absI dy i, ⟨i, mem_vis.mpr ⟨hi, by rw [hih]; exact hh⟩, rfl⟩, hih, by simpa [absI, hih] using e⟩
+
+theorem act_isClosed {hid dy : List Nat} {s : Impl} (hg : GInv hid dy s) (h : Nat) (pc : Pc)
+    (hc : Compat (.isClosed h) pc = true) (ht : TInv hid dy s (.isClosed h) pc) (hnd : ∀ r, pc ≠ .done r) :
+    Act hid dy s (.isClosed h) pc := by
+  cases pc <;> simp [Compat] at hc
+  · -- isCl
+    obtain ⟨hhas, hh1, hh2⟩ := ht rfl
+    obtain ⟨i, hget⟩ := get_of_has hhas
+    have hah : (absG hid dy s).has h = true := by rw [absG_has]; simp [hhas, hh1]
+    have hopen := isOpenG hg hget hh1
+    exact Act.same hg (by simp [stepOp, hget]) rfl (by simp [stepOp, Compat, hget]) (by simp [TInv, stepOp, hget])
+      (by simp [stepOp, post, LinRel, Reg.step, hget, hah, hopen, hh2])
+  · exact absurd rfl (hnd _)
+
+/-! ### closeRuntime -/
+
+theorem closeFromStore_h (c : Nat) (i : Inst) : (closeFromStore c i).h = i.h := by
+  unfold closeFromStore; split
+  · rfl
+  · rw [ensureRes_h]
+
+theorem closeListed_map_h (c : Nat) (list : List Nat) (l : List Inst) :
+    (closeListed c list l).map (·.h) = l.map (·.h) := by
+  induction l with
+  | nil => rfl
+  | cons a l ih =>
+    simp only [closeListed, List.map_cons, ih]
+    split
+    · rw [closeFromStore_h]
+    · rfl
+
+theorem has_congr {s1 s2 : Impl} (e : s1.insts.map (·.h) = s2.insts.map (·.h)) (h : Nat) : s1.has h = s2.has h := by
+  have : ∀ s : Impl, s.has h = (s.insts.map (·.h)).any (· == h) := by
+    intro s; simp [Impl.has, List.any_map, Function.comp_def]
+  rw [this, this, e]
+
+theorem updInst_map_h (h : Nat) (f : Inst → Inst) (hf : ∀ i, (f i).h = i.h) (l : List Inst) :
+    (updInst h f l).map (·.h) = l.map (·.h) := by
+  induction l with
+  | nil => rfl
+  | cons a l ih =>
+    simp only [updInst, List.map_cons, ih]
+    split
+    · rw [hf]
+    · rfl
+
+theorem vis_closeListed (hid : List Nat) (c : Nat) (list : List Nat) (l : List Inst) :
+    vis hid (closeListed c list l) = closeListed c list (vis hid l) := by
+  induction l with
+  | nil => rfl
+  | cons a l ih =>
+    simp only [vis] at ih ⊢
+    simp only [closeListed, List.filter_cons]
+    have hh : (if list.contains a.h = true then closeFromStore c a else a).h = a.h := by
+      split
+      · rw [closeFromStore_h]
+      · rfl
+    rw [hh]
+    by_cases hv : (!decide (a.h ∈ hid)) = true
+    · simp only [hv, if_true, closeListed, ih]
+    · simp only [hv, ih]; simp
+
+theorem map_absI_closeListed (dy : List Nat) (c : Nat) (list : List Nat) (l : List Inst)
+    (hl : ∀ i ∈ l, i.closed = none → i.h ∉ dy → i.h ∈ list) :
+    (closeListed c list l).map (absI dy) = closeAllMods (l.map (absI dy)) := by
+  induction l with
+  | nil => rfl
+  | cons a l ih =>
+    simp only [closeListed, List.map_cons, closeAllMods, ih (fun i hi => hl i (List.mem_cons_of_mem _ hi))]
+    congr 1
+    by_cases hin : list.contains a.h = true
+    · simp only [hin, if_true]
+      unfold closeFromStore
+      split
+      · rename_i hs; cases hcl : a.closed <;> simp_all [absI]
+      · rw [absI_ensureRes]; simp [absI]
+    · simp only [hin]
+      cases hcl : a.closed with
+      | none =>
+        by_cases hd : a.h ∈ dy
+        · simp [absI, hd]
+        · exact absurd (by simpa using hl a List.mem_cons_self hcl hd) hin
+      | some v => simp [absI, hcl]
+
+theorem mem_closeListed {c : Nat} {list : List Nat} {l : List Inst} {x : Inst} (hx : x ∈ closeListed c list l) :
+    ∃ y ∈ l, x.h = y.h ∧ (x.closed = none → y.closed = none ∧ y.h ∉ list) := by
+  induction l with
+  | nil => simp [closeListed] at hx
+  | cons a l ih =>
+    simp only [closeListed, List.mem_cons] at hx
+    rcases hx with e | hx
+    · refine ⟨a, List.mem_cons_self, ?_⟩
+      by_cases hin : list.contains a.h = true
+      · simp only [hin, if_true] at e
+        subst e
+        refine ⟨closeFromStore_h c a, ?_⟩
+        unfold closeFromStore
+        split
+        · rename_i hs; intro e; simp [e] at hs
+        · rw [ensureRes_closed]; intro e; simp at e
+      · simp only [hin] at e
+        subst e
+        exact ⟨rfl, fun e => ⟨e, by simpa using hin⟩⟩
+    · obtain ⟨y, hy, r⟩ := ih hx
+      exact ⟨y, List.mem_cons_of_mem _ hy, r⟩
+
+theorem act_closeRuntime {hid dy : List Nat} {s : Impl} (hg : GInv hid dy s) (c : Nat) (pc : Pc)
+    (hc : Compat (.closeRuntime c) pc = true) (hnd : ∀ r, pc ≠ .done r) : Act hid dy s (.closeRuntime c) pc := by
+  cases pc <;> simp [Compat] at hc
+  · -- rCas
+    have hinv := step_inv (absG hid dy s) (.closeRuntime c) hg.inv
+    cases hrt : s.rtClosed with
+    | some c0 =>
+      have hall := hg.inv.closedAll (by simp [absG, hrt])
+      have hid' := closeAll_id (absG hid dy s).mods hall
+      exact Act.same hg (by simp [stepOp, hrt]) rfl (by simp [stepOp, hrt, Compat]) (by simp [TInv])
+        (by simp only [stepOp, hrt, post, LinRel, Reg.step, hid', Option.isSome_some, if_true]; simp [absG, hrt])
+    | none =>
+      have hstep : stepOp Cfg.repaired s (.closeRuntime c) .rCas =
+          (⟨closeListed c s.list s.insts, [], none, some c⟩, .done .ok) := by
+        simp [stepOp, hrt, Cfg.repaired, storeClose]
+      have hgh : ghostStep s (.closeRuntime c) .rCas (hid, dy) = (hid, dy) := rfl
+      have habs : absG hid dy ⟨closeListed c s.list s.insts, [], none, some c⟩ =
+          ((absG hid dy s).step (.closeRuntime c)).1 := by
+        simp only [absG, Reg.step, vis_closeListed]
+        rw [map_absI_closeListed dy c s.list (vis hid s.insts)
+          (fun i hi h1 h2 => hg.lst i (mem_vis.mp hi).1 h1 (mem_vis.mp hi).2 h2)]
+        rfl
+      have hmaph : (closeListed c s.list s.insts).map (·.h) = s.insts.map (·.h) := closeListed_map_h _ _ _
+      have hhas : ∀ h, Impl.has ⟨closeListed c s.list s.insts, [], none, some c⟩ h = s.has h :=
+        fun h => has_congr hmaph h
+      refine Act.of_eq_sameH hstep hgh ?_ (by simp [Compat]) (by simp [TInv])
+        (by simp only [post, LinRel, habs]; rfl) hhas
+      refine ⟨by simp, by simp, ?_, by rw [habs]; exact hinv, by rw [hmaph]; exact hg.nd,
+        fun h hh => by rw [hhas]; exact hg.hidIn h hh, fun h hh => by rw [hhas]; exact hg.dyIn h hh⟩
+      intro i hi hcl h1 h2
+      obtain ⟨y, hy, e1, e2⟩ := mem_closeListed hi
+      obtain ⟨e3, e4⟩ := e2 hcl
+      exact absurd (hg.lst y hy e3 (e1 ▸ h1) (e1 ▸ h2)) e4
+  · exact absurd rfl (hnd _)
+
+/-! ### closeModule -/
+
+/-- An update of the records with handle `h` that the abstraction does not see. -/
+theorem ginv_updInst {hid dy : List Nat} {s : Impl} (hg : GInv hid dy s) (h : Nat) (f : Inst → Inst)
+    (hfh : ∀ i, (f i).h = i.h)
+    (hfa : (vis hid (updInst h f s.insts)).map (absI dy) = (vis hid s.insts).map (absI dy))
+    (hfl : ∀ i ∈ s.insts, i.h = h → (f i).closed = none → i.closed = none ∨ h ∈ hid ∨ h ∈ dy) :
+    GInv hid dy { s with insts := updInst h f s.insts } ∧
+    absG hid dy { s with insts := updInst h f s.insts } = absG hid dy s := by
+  have habs : absG hid dy { s with insts := updInst h f s.insts } = absG hid dy s := by
+    simp only [absG, hfa]
+  have hmaph := updInst_map_h h f hfh s.insts
+  have hhas : ∀ k, Impl.has { s with insts := updInst h f s.insts } k = s.has k := fun k => has_congr hmaph k
+  refine ⟨⟨hg.rt, ?_, ?_, by rw [habs]; exact hg.inv, by rw [hmaph]; exact hg.nd,
+    fun k hk => by rw [hhas]; exact hg.hidIn k hk, fun k hk => by rw [hhas]; exact hg.dyIn k hk⟩, habs⟩
+  · intro m hm n hn; rw [habs]; exact hg.nm m hm n hn
+  · intro x hx hcl h1 h2
+    obtain ⟨y, hy, r⟩ := mem_updInst hx
+    rcases r with ⟨e1, e2⟩ | ⟨e1, e2⟩
+    · subst e2
+      have hxh : (f y).h = h := by rw [hfh]; exact e1
+      rcases hfl y hy e1 hcl with e | e | e
+      · have := hg.lst y hy e (by rw [← hfh]; exact h1) (by rw [← hfh]; exact h2)
+        rw [hfh]; exact this
+      · exact absurd (hxh ▸ e) h1
+      · exact absurd (hxh ▸ e) h2
+    · subst e2; exact hg.lst x hy hcl h1 h2
+
+theorem absG_updInst_ensureRes (hid dy : List Nat) (h : Nat) (l : List Inst) :
+    (vis hid (updInst h ensureRes l)).map (absI dy) = (vis hid l).map (absI dy) := by
+  rw [vis_updInst hid h ensureRes ensureRes_h, map_absI_updInst_same dy h ensureRes (fun i _ => absI_ensureRes dy i)]
+
+/-- all records of the registry with a visible handle come from the one instance with that handle -/
+theorem modsG_only {hid dy : List Nat} {s : Impl} (hg : GInv hid dy s) {h : Nat} {i : Inst}
+    (hi : i ∈ s.insts) (hih : i.h = h) : ∀ m ∈ (absG hid dy s).mods, m.h = h → m = absI dy i := by
+  intro m hm e
+  simp only [absG, List.mem_map] at hm
+  obtain ⟨j, hj, rfl⟩ := hm
+  have : j = i := insts_same_h' hg.nd (mem_vis.mp hj).1 hi (by rw [hih]; exact e)
+  rw [this]
+
+theorem act_closeModule {hid dy : List Nat} {s : Impl} (hg : GInv hid dy s) (h c : Nat) (pc : Pc)
+    (hc : Compat (.closeModule h c) pc = true) (ht : TInv hid dy s (.closeModule h c) pc)
+    (hnd : ∀ r, pc ≠ .done r) : Act hid dy s (.closeModule h c) pc := by
+  cases pc <;> simp [Compat] at hc
+  · -- mCas
+    obtain ⟨hhas, hh1, hh2⟩ := ht rfl
+    obtain ⟨i, hget⟩ := get_of_has hhas
+    obtain ⟨himem, hih⟩ := get_some hget
+    have hah : (absG hid dy s).has h = true := by rw [absG_has]; simp [hhas, hh1]
+    have hinv := step_inv (absG hid dy s) (.closeModule h c) hg.inv
+    have honly := modsG_only hg himem hih
+    cases hcl : i.closed with
+    | some c0 =>
+      have hidm : closeMods h (absG hid dy s).mods = (absG hid dy s).mods := by
+        apply closeMods_id
+        intro m hm e
+        rw [honly m hm e]; simp [absI, hcl]
+      exact Act.same hg (by simp [stepOp, hget, hcl]) rfl (by simp [stepOp, hget, hcl, Compat])
+        (by simp [TInv, stepOp, hget, hcl]) (by simp [stepOp, hget, hcl, post, LinRel, Reg.step, hah, hidm])
+    | none =>
+      have hget' : Impl.get { s with insts := updInst h (fun i => { i with closed := some c }) s.insts } h
+          = some { i with closed := some c } := by
+        simp only [Impl.get] at hget ⊢
+        rw [find_updInst h (fun i => { i with closed := some c }) (fun _ => rfl), hget]; rfl
+      have hstep : stepOp Cfg.repaired s (.closeModule h c) .mCas =
+          (⟨updInst h (fun i => { i with closed := some c }) s.insts, s.list.filter (· != h), closeNames s h i,
+            s.rtClosed⟩, .mRes) := by
+        simp only [stepOp, hget, hcl, Option.isSome_none, Bool.false_eq_true, if_false, Cfg.repaired, if_true,
+          deleteModule, hget', closeNames]
+        cases hn : (i.name == 0) <;> cases hnm : s.names <;> simp
+      have hrstep : (absG hid dy s).step (.closeModule h c) =
+          (⟨closeMods h (absG hid dy s).mods, (absG hid dy s).rtClosed⟩, .ok) := by
+        simp [Reg.step, hah]
+      rw [hrstep] at hinv
+      have habs : absG hid dy ⟨updInst h (fun i => { i with closed := some c }) s.insts, s.list.filter (· != h),
+          closeNames s h i, s.rtClosed⟩ = ⟨closeMods h (absG hid dy s).mods, (absG hid dy s).rtClosed⟩ := by
+        simp only [absG, vis_updInst hid h (fun i => { i with closed := some c }) (fun _ => rfl),
+          map_absI_updInst_close]
+      have hmaph := updInst_map_h h (fun i => { i with closed := some c }) (fun _ => rfl) s.insts
+      have hhas' : ∀ k, Impl.has ⟨updInst h (fun i => { i with closed := some c }) s.insts,
+          s.list.filter (· != h), closeNames s h i, s.rtClosed⟩ k = s.has k := fun k => has_congr hmaph k
+      refine Act.of_eq_sameH hstep rfl ?_ (by simp [Compat]) (by simp [TInv])
+        (by simp only [post, LinRel, habs, hrstep]) hhas'
+      refine ⟨?_, ?_, ?_, by rw [habs]; exact hinv, by rw [hmaph]; exact hg.nd,
+        fun k hk => by rw [hhas']; exact hg.hidIn k hk, fun k hk => by rw [hhas']; exact hg.dyIn k hk⟩
+      · -- rt
+        show closeNames s h i = none ↔ s.rtClosed.isSome = true
+        rw [← hg.rt]
+        unfold closeNames
+        cases hn : (i.name == 0) <;> cases hnm : s.names <;> simp
+        split <;> simp
+      · -- nm
+        intro m hm n hn
+        rw [habs]
+        show nameLookup n m = Reg.owner ⟨closeMods h (absG hid dy s).mods, (absG hid dy s).rtClosed⟩ n
+        rw [owner_find hn]
+        show nameLookup n m = ((closeMods h (absG hid dy s).mods).find? _).map _
+        by_cases hne : i.name = n
+        · subst hne
+          have hown := owner_of_openG hg himem hcl (hih ▸ hh1) (hih ▸ hh2) hn
+          have hreuse := closed_name_reusable (absG hid dy s) hg.inv i.name h c (by rw [hown, hih])
+          rw [hrstep, owner_find hn] at hreuse
+          rw [show ((closeMods h (absG hid dy s).mods).find? _).map _ = none from hreuse]
+          have hn0 : (i.name == 0) = false := by simpa using hn
+          obtain ⟨nm, hnm⟩ : ∃ nm, s.names = some nm := by
+            cases hq : s.names with
+            | none => simp [closeNames, hn0, hq] at hm
+            | some nm => exact ⟨nm, rfl⟩
+          have hl : nameLookup i.name nm = some h := by rw [hg.nm nm hnm i.name hn, hown, hih]
+          simp only [closeNames, hn0, hnm, hl, beq_self_eq_true, if_true] at hm
+          have : m = nameErase i.name nm := by simpa using hm.symm
+          rw [this]; exact nameLookup_erase_self _ _
+        · have hfind := find_closeMods h n (absG hid dy s).mods (by
+            intro m' hm' e
+            rw [honly m' hm' e]; simp [absI, hne])
+          rw [hfind, ← owner_find hn]
+          cases hq : s.names with
+          | none =>
+            simp only [closeNames, hq] at hm
+            split at hm <;> simp at hm
+          | some nm =>
+            rw [← hg.nm nm hq n hn]
+            simp only [closeNames, hq] at hm
+            split at hm
+            · have : m = nm := by simpa using hm.symm
+              rw [this]
+            · split at hm
+              · have : m = nameErase i.name nm := by simpa using hm.symm
+                rw [this]; exact nameLookup_erase_ne n i.name (Ne.symm hne) nm
+              · have : m = nm := by simpa using hm.symm
+                rw [this]
+      · -- lst
+        intro j hj hjc h1 h2
+        show j.h ∈ s.list.filter (· != h)
+        obtain ⟨y, hy, hyj⟩ := mem_updInst hj
+        rcases hyj with ⟨e1, e2⟩ | ⟨e1, e2⟩
+        · subst e2; simp at hjc
+        · subst e2
+          have := hg.lst j hy hjc h1 h2
+          simp [List.mem_filter, this, e1]
+  · -- mRes
+    have hstep : stepOp Cfg.repaired s (.closeModule h c) .mRes =
+        ({ s with insts := updInst h ensureRes s.insts }, .done .ok) := by simp [stepOp]
+    obtain ⟨hg', habs⟩ := ginv_updInst hg h ensureRes ensureRes_h (absG_updInst_ensureRes hid dy h s.insts)
+      (fun i _ _ e => Or.inl (by rw [ensureRes_closed] at e; exact e))
+    exact Act.of_eq_sameH hstep rfl hg' (by simp [Compat]) (by simp [TInv])
+      (by simp only [post, LinRel, habs]; simp)
+      (fun k => has_congr (updInst_map_h h ensureRes ensureRes_h s.insts) k)
+  · exact absurd rfl (hnd _)
+
+/-! ### instantiate -/
+
+theorem vis_cons_not_mem (hid : List Nat) (h : Nat) (l : List Inst) (hl : ∀ i ∈ l, i.h ≠ h) :
+    vis (h :: hid) l = vis hid l := by
+  simp only [vis]
+  apply List.filter_congr
+  intro i hi
+  simp [hl i hi]
+
+theorem map_absI_cons_not_mem (dy : List Nat) (h : Nat) (l : List Inst) (hl : ∀ i ∈ l, i.h ≠ h) :
+    l.map (absI (h :: dy)) = l.map (absI dy) := by
+  apply List.map_congr_left
+  intro i hi
+  simp [absI, hl i hi]
+
+theorem vis_cons_hidden (hid : List Nat) (i : Inst) (l : List Inst) (hi : i.h ∈ hid) :
+    vis hid (i :: l) = vis hid l := by
+  simp [vis, hi]
+
+theorem vis_cons_visible (hid : List Nat) (i : Inst) (l : List Inst) (hi : i.h ∉ hid) :
+    vis hid (i :: l) = i :: vis hid l := by
+  simp [vis, hi]
+
+theorem has_cons (s : Impl) (i : Inst) (k : Nat) (l : List Nat) (nm : Option (List (Nat × Nat))) (rc : Option Nat) :
+    Impl.has ⟨i :: s.insts, l, nm, rc⟩ k = (i.h == k || s.has k) := by
+  simp [Impl.has]
+
+theorem act_fRes {hid dy : List Nat} {s : Impl} (hg : GInv hid dy s) (h n : Nat) (p : Pre) (e : Res)
+    (he : e ≠ .ok) : Act hid dy s (.instantiate h n p) (.fRes e) := by
+  have hstep : stepOp Cfg.repaired s (.instantiate h n p) (.fRes e) =
+      ({ s with insts := updInst h ensureRes s.insts }, .done e) := by simp [stepOp]
+  obtain ⟨hg', habs⟩ := ginv_updInst hg h ensureRes ensureRes_h (absG_updInst_ensureRes hid dy h s.insts)
+    (fun i _ _ e => Or.inl (by rw [ensureRes_closed] at e; exact e))
+  exact Act.of_eq_sameH hstep rfl hg' (by simp [Compat]) (by simp [TInv, preReg, fPhase, he])
+    (by simp only [post, LinRel, habs]; simp)
+    (fun k => has_congr (updInst_map_h h ensureRes ensureRes_h s.insts) k)
+
+theorem act_fCas {hid dy : List Nat} {s : Impl} (hg : GInv hid dy s) (h n : Nat) (p : Pre) (e : Res)
+    (he : e ≠ .ok) (hhas : s.has h = true) (hgh : h ∈ hid ∨ h ∈ dy) :
+    Act hid dy s (.instantiate h n p) (.fCas e) := by
+  have hstep : stepOp Cfg.repaired s (.instantiate h n p) (.fCas e) =
+      ({ s with insts := updInst h (fun i => { i with closed := some 0 }) s.insts }, .fDel e) := by simp [stepOp]
+  have hfa : (vis hid (updInst h (fun i => { i with closed := some 0 }) s.insts)).map (absI dy) =
+      (vis hid s.insts).map (absI dy) := by
+    rw [vis_updInst hid h (fun i => { i with closed := some 0 }) (fun _ => rfl)]
+    by_cases h1 : h ∈ hid
+    · rw [updInst_not_mem]
+      intro i hi e; exact (mem_vis.mp hi).2 (e ▸ h1)
+    · have h2 : h ∈ dy := by rcases hgh with h' | h'; exact absurd h' h1; exact h'
+      apply map_absI_updInst_same
+      intro i hi; simp [absI, hi, h2]
+  obtain ⟨hg', habs⟩ := ginv_updInst hg h (fun i => { i with closed := some 0 }) (fun _ => rfl) hfa
+    (fun i _ _ e => by simp at e)
+  have hhas' : ∀ k, Impl.has { s with insts := updInst h (fun i => { i with closed := some 0 }) s.insts } k = s.has k :=
+    fun k => has_congr (updInst_map_h h (fun i => { i with closed := some 0 }) (fun _ => rfl) s.insts) k
+  exact Act.of_eq_sameH hstep rfl hg' (by simp [Compat, he]) (by simp [TInv, preReg, fPhase, hhas', hhas, hgh])
+    (by simp only [post, LinRel, habs]; simp) hhas'
+
+theorem act_fDel {hid dy : List Nat} {s : Impl} (hg : GInv hid dy s) (h n : Nat) (p : Pre) (e : Res)
+    (he : e ≠ .ok) (hhas : s.has h = true) (hgh : h ∈ hid ∨ h ∈ dy) :
+    Act hid dy s (.instantiate h n p) (.fDel e) := by
+  obtain ⟨i, hget⟩ := get_of_has hhas
+  obtain ⟨himem, hih⟩ := get_some hget
+  have hnames : closeNames s h i = s.names := by
+    unfold closeNames
+    by_cases hn : i.name = 0
+    · simp [hn]
+    · have hn' : (i.name == 0) = false := by simpa using hn
+      simp only [hn', Bool.false_eq_true, if_false]
+      cases hq : s.names with
+      | none => rfl
+      | some nm =>
+        have hne : (nameLookup i.name nm == some h) = false := by
+          cases hb : (nameLookup i.name nm == some h) with
+          | false => rfl
+          | true =>
+            have hl : nameLookup i.name nm = some h := by simpa using hb
+            rw [hg.nm nm hq i.name hn] at hl
+            obtain ⟨_, _, _, _, h1, h2, _⟩ := owner_someG hl
+            rcases hgh with h' | h'
+            · exact absurd h' h1
+            · exact absurd h' h2
+        simp [hne]
+  have hstep : stepOp Cfg.repaired s (.instantiate h n p) (.fDel e) =
+      (⟨s.insts, s.list.filter (· != h), s.names, s.rtClosed⟩, .fRes e) := by
+    rw [← hnames]
+    simp only [stepOp, deleteModule, hget, Cfg.repaired, if_true, closeNames]
+    cases hn : (i.name == 0) <;> cases hnm : s.names <;> simp
+  have habs : absG hid dy ⟨s.insts, s.list.filter (· != h), s.names, s.rtClosed⟩ = absG hid dy s := rfl
+  have hhas' : ∀ k, Impl.has ⟨s.insts, s.list.filter (· != h), s.names, s.rtClosed⟩ k = s.has k := fun _ => rfl
+  refine Act.of_eq_sameH hstep rfl ?_ (by simp [Compat, he]) (by simp [TInv, preReg, fPhase, hhas', hhas, hgh])
+    (by simp only [post, LinRel, habs]; simp) hhas'
+  refine ⟨hg.rt, fun m hm k hk => by rw [habs]; exact hg.nm m hm k hk, ?_, by rw [habs]; exact hg.inv, hg.nd,
+    hg.hidIn, hg.dyIn⟩
+  intro j hj hjc h1 h2
+  have := hg.lst j hj hjc h1 h2
+  have hne : j.h ≠ h := by
+    intro e'
+    rcases hgh with h' | h'
+    · exact h1 (e' ▸ h')
+    · exact h2 (e' ▸ h')
+  simp [List.mem_filter, this, hne]
+
+theorem act_iReg {hid dy : List Nat} {s : Impl} (hg : GInv hid dy s) (h n : Nat) (p : Pre)
+    (hnh : s.has h = false) : Act hid dy s (.instantiate h n p) .iReg := by
+  have hne_h : ∀ j ∈ s.insts, j.h ≠ h := (has_false_iff s h).mp hnh
+  have hh1 : h ∉ hid := fun e => by have := hg.hidIn h e; rw [hnh] at this; exact absurd this (by simp)
+  have hh2 : h ∉ dy := fun e => by have := hg.dyIn h e; rw [hnh] at this; exact absurd this (by simp)
+  have hah : (absG hid dy s).has h = false := by rw [absG_has]; simp [hnh]
+  have hinv := step_inv (absG hid dy s) (.instantiate h n p) hg.inv
+  have hnd' : ∀ (i : Inst), i.h = h → ((i :: s.insts).map (·.h)).Nodup := by
+    intro i hi
+    simp only [List.map_cons, List.nodup_cons, hi]
+    refine ⟨?_, hg.nd⟩
+    intro hm
+    obtain ⟨j, hj, e⟩ := List.mem_map.mp hm
+    exact hne_h j hj e
+  cases hnm : s.names with
+  | none =>
+    -- the store was closed after `iFail`: refused, a hidden stillborn record
+    have hrt := hg.rt.mp hnm
+    have hstep : stepOp Cfg.repaired s (.instantiate h n p) .iReg =
+        (⟨freshI h n :: s.insts, s.list, s.names, s.rtClosed⟩, .fCas .errClosed) := by
+      simp [stepOp, hnh, hnm, freshI]
+    have hgh : ghostStep s (.instantiate h n p) .iReg (hid, dy) = (h :: hid, dy) := by
+      simp [ghostStep, hnh, hnm]
+    have habs : absG (h :: hid) dy ⟨freshI h n :: s.insts, s.list, s.names, s.rtClosed⟩ = absG hid dy s := by
+      simp only [absG]
+      rw [vis_cons_hidden (h :: hid) (freshI h n) s.insts (by simp [freshI]), vis_cons_not_mem hid h s.insts hne_h]
+    have hhas' : ∀ k, Impl.has ⟨freshI h n :: s.insts, s.list, s.names, s.rtClosed⟩ k = (h == k || s.has k) :=
+      fun k => has_cons s (freshI h n) k _ _ _
+    refine Act.of_eq hstep hgh ?_ (by simp [Compat]) (by simp [TInv, preReg, fPhase, hhas'])
+      (by simp only [post, LinRel, habs, Reg.step, absG_rtClosed, hrt, if_true])
+      (fun k hk => by rw [hhas']; simp [hk])
+      (fun k hk => by
+        rw [hhas'] at hk
+        rcases Bool.or_eq_true_iff.mp hk with e | e
+        · exact Or.inr ⟨rfl, n, p, by rw [show h = k by simpa using e]⟩
+        · exact Or.inl e)
+      (fun k hk => List.mem_cons_of_mem _ hk) (fun _ hk => hk)
+      (fun k hk => by
+        rcases List.mem_cons.mp hk with e | e
+        · exact Or.inr (e ▸ hnh)
+        · exact Or.inl e)
+      (fun _ hk => Or.inl hk)
+    refine ⟨hg.rt, fun m hm => by simp [hnm] at hm, ?_, by rw [habs]; exact hg.inv, hnd' _ rfl, ?_, ?_⟩
+    · intro j hj hjc h1 h2
+      rcases List.mem_cons.mp hj with e | e
+      · subst e; simp [freshI] at h1
+      · exact hg.lst j e hjc (fun e' => h1 (List.mem_cons_of_mem _ e')) h2
+    · intro k hk
+      rw [hhas']
+      rcases List.mem_cons.mp hk with e | e
+      · simp [e]
+      · simp [hg.hidIn k e]
+    · intro k hk; rw [hhas']; simp [hg.dyIn k hk]
+  | some nm =>
+    have hrt := rt_false_of_names hg hnm
+    have hrc : (absG hid dy s).rtClosed = false := hrt
+    have hlook : (n != 0 && (nameLookup n nm).isSome) = ((absG hid dy s).owner n).isSome := by
+      by_cases hn : n = 0
+      · subst hn; simp [Reg.owner]
+      · rw [hg.nm nm hnm n hn]; simp [hn]
+    cases hown : ((absG hid dy s).owner n).isSome with
+    | true =>
+      -- the name is taken: a dying stillborn record
+      rw [hown] at hlook
+      have hstep : stepOp Cfg.repaired s (.instantiate h n p) .iReg =
+          (⟨freshI h n :: s.insts, s.list, s.names, s.rtClosed⟩, .fCas .errDup) := by
+        simp [stepOp, hnh, hnm, freshI, hlook]
+      have hgh : ghostStep s (.instantiate h n p) .iReg (hid, dy) = (hid, h :: dy) := by
+        simp [ghostStep, hnh, hnm, hlook]
+      have hrstep : (absG hid dy s).step (.instantiate h n p) =
+          ({ (absG hid dy s) with mods := ⟨h, n, false⟩ :: (absG hid dy s).mods }, .errDup) := by
+        simp [Reg.step, hrc, hah, hown]
+      rw [hrstep] at hinv
+      have habs : absG hid (h :: dy) ⟨freshI h n :: s.insts, s.list, s.names, s.rtClosed⟩ =
+          { (absG hid dy s) with mods := ⟨h, n, false⟩ :: (absG hid dy s).mods } := by
+        simp only [absG]
+        rw [vis_cons_visible hid (freshI h n) s.insts (by simpa [freshI] using hh1), List.map_cons,
+          map_absI_cons_not_mem dy h (vis hid s.insts) (fun i hi => hne_h i (mem_vis.mp hi).1)]
+        simp [freshI, absI]
+      have hhas' : ∀ k, Impl.has ⟨freshI h n :: s.insts, s.list, s.names, s.rtClosed⟩ k = (h == k || s.has k) :=
+        fun k => has_cons s (freshI h n) k _ _ _
+      refine Act.of_eq hstep hgh ?_ (by simp [Compat]) (by simp [TInv, preReg, fPhase, hhas'])
+        (by simp only [post, LinRel, habs, hrstep])
+        (fun k hk => by rw [hhas']; simp [hk])
+        (fun k hk => by
+          rw [hhas'] at hk
+          rcases Bool.or_eq_true_iff.mp hk with e | e
+          · exact Or.inr ⟨rfl, n, p, by rw [show h = k by simpa using e]⟩
+          · exact Or.inl e)
+        (fun _ hk => hk) (fun k hk => List.mem_cons_of_mem _ hk)
+        (fun _ hk => Or.inl hk)
+        (fun k hk => by
+          rcases List.mem_cons.mp hk with e | e
+          · exact Or.inr (e ▸ hnh)
+          · exact Or.inl e)
+      refine ⟨hg.rt, ?_, ?_, by rw [habs]; exact hinv, hnd' _ rfl, ?_, ?_⟩
+      · intro m hm k hk
+        rw [habs, owner_cons_closed]
+        exact hg.nm m hm k hk
+      · intro j hj hjc h1 h2
+        rcases List.mem_cons.mp hj with e | e
+        · subst e; simp [freshI] at h2
+        · exact hg.lst j e hjc h1 (fun e' => h2 (List.mem_cons_of_mem _ e'))
+      · intro k hk; rw [hhas']; simp [hg.hidIn k hk]
+      · intro k hk
+        rw [hhas']
+        rcases List.mem_cons.mp hk with e | e
+        · simp [e]
+        · simp [hg.dyIn k e]
+    | false =>
+      rw [hown] at hlook
+      have hstep : stepOp Cfg.repaired s (.instantiate h n p) .iReg =
+          (⟨{ freshI h n with notifier := true } :: s.insts, h :: s.list,
+            some (if n != 0 then (n, h) :: nm else nm), s.rtClosed⟩, .done .ok) := by
+        simp [stepOp, hnh, hnm, freshI, hlook, Cfg.repaired]
+      have hgh : ghostStep s (.instantiate h n p) .iReg (hid, dy) = (hid, dy) := by
+        simp [ghostStep, hnh, hnm, hlook]
+      have hrstep : (absG hid dy s).step (.instantiate h n p) =
+          ({ (absG hid dy s) with mods := ⟨h, n, true⟩ :: (absG hid dy s).mods }, .ok) := by
+        simp [Reg.step, hrc, hah, hown]
+      rw [hrstep] at hinv
+      have habs : absG hid dy ⟨{ freshI h n with notifier := true } :: s.insts, h :: s.list,
+          some (if n != 0 then (n, h) :: nm else nm), s.rtClosed⟩ =
+          { (absG hid dy s) with mods := ⟨h, n, true⟩ :: (absG hid dy s).mods } := by
+        simp only [absG]
+        rw [vis_cons_visible hid _ s.insts (by simpa [freshI] using hh1), List.map_cons]
+        simp [freshI, absI, hh2]
+      have hhas' : ∀ k, Impl.has ⟨{ freshI h n with notifier := true } :: s.insts, h :: s.list,
+          some (if n != 0 then (n, h) :: nm else nm), s.rtClosed⟩ k = (h == k || s.has k) :=
+        fun k => has_cons s _ k _ _ _
+      refine Act.of_eq hstep hgh ?_ (by simp [Compat])
+        ⟨by simp [preReg], by simp [fPhase], fun _ => ⟨by rw [hhas']; simp, hh1, hh2⟩⟩
+        (by simp only [post, LinRel, habs, hrstep])
+        (fun k hk => by rw [hhas']; simp [hk])
+        (fun k hk => by
+          rw [hhas'] at hk
+          rcases Bool.or_eq_true_iff.mp hk with e | e
+          · exact Or.inr ⟨rfl, n, p, by rw [show h = k by simpa using e]⟩
+          · exact Or.inl e)
+        (fun _ hk => hk) (fun _ hk => hk) (fun _ hk => Or.inl hk) (fun _ hk => Or.inl hk)
+      refine ⟨by simp [hrt], ?_, ?_, by rw [habs]; exact hinv, hnd' _ rfl, ?_, ?_⟩
+      · intro m hm k hk
+        rw [habs, owner_cons_open _ _ _ _ hk]
+        have hm' : m = if n != 0 then (n, h) :: nm else nm := by simpa using hm.symm
+        rw [hm']
+        by_cases hn : n = 0
+        · subst hn
+          have : (0 == k) = false := by simpa using (Ne.symm hk)
+          simp [this]; exact hg.nm nm hnm k hk
+        · have hn' : (n != 0) = true := by simpa using hn
+          simp only [hn', if_true, nameLookup]
+          by_cases hnk : (n == k) = true
+          · simp [hnk]
+          · simp only [hnk, Bool.false_eq_true, if_false]; exact hg.nm nm hnm k hk
+      · intro j hj hjc h1 h2
+        rcases List.mem_cons.mp hj with e | e
+        · subst e; simp [freshI]
+        · exact List.mem_cons_of_mem _ (hg.lst j e hjc h1 h2)
+      · intro k hk; rw [hhas']; simp [hg.hidIn k hk]
+      · intro k hk; rw [hhas']; simp [hg.dyIn k hk]
+
+theorem act_instantiate {hid dy : List Nat} {s : Impl} (hg : GInv hid dy s) (h n : Nat) (p : Pre) (pc : Pc)
+    (hc : Compat (.instantiate h n p) pc = true) (ht : TInv hid dy s (.instantiate h n p) pc)
+    (hnd : ∀ r, pc ≠ .done r) : Act hid dy s (.instantiate h n p) pc := by
+  obtain ⟨ht1, ht2, ht3⟩ := ht
+  cases pc <;> simp [Compat] at hc
+  · -- cFail
+    have hnh := ht1 rfl
+    cases hrt : s.rtClosed with
+    | some c =>
+      exact Act.same hg (by simp [stepOp, hrt]) rfl (by simp [stepOp, hrt, Compat]) (by simp [TInv, stepOp, hrt, preReg, fPhase])
+        (by simp [stepOp, hrt, post, LinRel, Reg.step, absG])
+    | none =>
+      exact Act.same hg (by simp [stepOp, hrt]) rfl (by simp [stepOp, hrt, Compat])
+        (by simp [TInv, stepOp, hrt, preReg, fPhase, hnh]) (by simp [stepOp, hrt, post, LinRel])
+  · -- cTypes
+    have hnh := ht1 rfl
+    cases hnm : s.names with
+    | none =>
+      have hrt := hg.rt.mp hnm
+      exact Act.same hg (by simp [stepOp]) rfl (by simp [stepOp, typesSection, hnm, Compat])
+        (by simp [TInv, stepOp, typesSection, hnm, preReg, fPhase, Cfg.repaired])
+        (by simp [stepOp, typesSection, hnm, post, LinRel, Reg.step, absG, hrt, Cfg.repaired])
+    | some nm =>
+      exact Act.same hg (by simp [stepOp]) rfl (by simp [stepOp, typesSection, hnm, Compat, afterCompile])
+        (by simp [TInv, stepOp, typesSection, hnm, preReg, fPhase, afterCompile, hnh])
+        (by simp [stepOp, typesSection, hnm, post, LinRel, afterCompile])
+  · -- hFail g
+    rename_i g
+    have hnh := ht1 rfl
+    cases hrt : s.rtClosed with
+    | some c =>
+      exact Act.same hg (by simp [stepOp, hrt]) rfl (by simp [stepOp, hrt, Compat]) (by simp [TInv, stepOp, hrt, preReg, fPhase])
+        (by simp [stepOp, hrt, post, LinRel, Reg.step, absG])
+    | none =>
+      cases g with
+      | true =>
+        exact Act.same hg (by simp [stepOp, hrt]) rfl (by simp [stepOp, hrt, Compat])
+          (by simp [TInv, stepOp, hrt, preReg, fPhase, hnh]) (by simp [stepOp, hrt, post, LinRel])
+      | false =>
+        exact Act.same hg (by simp [stepOp, hrt]) rfl (by simp [stepOp, hrt, Compat, afterCompile])
+          (by simp [TInv, stepOp, hrt, preReg, fPhase, hnh, afterCompile]) (by simp [stepOp, hrt, post, LinRel, afterCompile])
+  · -- hTypes
+    have hnh := ht1 rfl
+    cases hnm : s.names with
+    | none =>
+      have hrt := hg.rt.mp hnm
+      exact Act.same hg (by simp [stepOp]) rfl (by simp [stepOp, typesSection, hnm, Compat])
+        (by simp [TInv, stepOp, typesSection, hnm, preReg, fPhase, Cfg.repaired])
+        (by simp [stepOp, typesSection, hnm, post, LinRel, Reg.step, absG, hrt, Cfg.repaired])
+    | some nm =>
+      exact Act.same hg (by simp [stepOp]) rfl (by simp [stepOp, typesSection, hnm, Compat, afterCompile])
+        (by simp [TInv, stepOp, typesSection, hnm, preReg, fPhase, afterCompile, hnh])
+        (by simp [stepOp, typesSection, hnm, post, LinRel, afterCompile])
+  · -- iFail
+    have hnh := ht1 rfl
+    cases hrt : s.rtClosed with
+    | some c =>
+      exact Act.same hg (by simp [stepOp, hrt]) rfl (by simp [stepOp, hrt, Compat]) (by simp [TInv, stepOp, hrt, preReg, fPhase])
+        (by simp [stepOp, hrt, post, LinRel, Reg.step, absG])
+    | none =>
+      exact Act.same hg (by simp [stepOp, hrt]) rfl (by simp [stepOp, hrt, Compat])
+        (by simp [TInv, stepOp, hrt, preReg, fPhase, hnh]) (by simp [stepOp, hrt, post, LinRel])
+  · -- iReg
+    exact act_iReg hg h n p (ht1 rfl)
+  · -- fCas e
+    obtain ⟨h1, h2⟩ := ht2 rfl
+    exact act_fCas hg h n p _ hc h1 h2
+  · -- fDel e
+    obtain ⟨h1, h2⟩ := ht2 rfl
+    exact act_fDel hg h n p _ hc h1 h2
+  · -- fRes e
+    exact act_fRes hg h n p _ hc
+  · exact absurd rfl (hnd _)
+
+/-! ### every action; stability of the other threads' invariants -/
+
+/-- **Every atomic action of the repaired variant** keeps the simulation invariant, keeps the operation on its
+program, re-establishes what the operation needs next, and relates the registry before and after as `LinRel`
+says: exactly one action per operation executes the registry's step and fixes the result. -/
+theorem action {hid dy : List Nat} {s : Impl} (hg : GInv hid dy s) (op : Op) (pc : Pc)
+    (hc : Compat op pc = true) (ht : TInv hid dy s op pc) (hnd : ∀ r, pc ≠ .done r) : Act hid dy s op pc := by
+  cases op with
+  | instantiate h n p => exact act_instantiate hg h n p pc hc ht hnd
+  | lookup n => exact act_lookup hg n pc hc hnd
+  | compile => exact act_compile hg pc hc hnd
+  | hostCompile f => exact act_hostCompile hg f pc hc hnd
+  | closeModule h c => exact act_closeModule hg h c pc hc ht hnd
+  | closeRuntime c => exact act_closeRuntime hg c pc hc hnd
+  | isClosed h => exact act_isClosed hg h pc hc ht hnd
+
+theorem safe_stable {hid dy hid' dy' : List Nat} {s s' : Impl} {h : Nat}
+    (hasMono : ∀ h, s.has h = true → s'.has h = true)
+    (hidNew : ∀ h ∈ hid', h ∈ hid ∨ s.has h = false) (dyNew : ∀ h ∈ dy', h ∈ dy ∨ s.has h = false)
+    (hs : Safe hid dy s h) : Safe hid' dy' s' h := by
+  obtain ⟨h1, h2, h3⟩ := hs
+  refine ⟨hasMono h h1, ?_, ?_⟩
+  · intro e; rcases hidNew h e with e' | e'
+    · exact h2 e'
+    · rw [h1] at e'; exact absurd e' (by simp)
+  · intro e; rcases dyNew h e with e' | e'
+    · exact h3 e'
+    · rw [h1] at e'; exact absurd e' (by simp)
+
+/-- What an operation in progress needs survives an action of ANOTHER operation, provided the two are not
+instantiate requests with the same handle. -/
+theorem tinv_stable {hid dy : List Nat} {s : Impl} {op : Op} {pc : Pc} (ha : Act hid dy s op pc)
+    (op2 : Op) (pc2 : Pc) (ht : TInv hid dy s op2 pc2)
+    (hdist : ∀ h n p n' p', op = .instantiate h n p → op2 = .instantiate h n' p' → False) :
+    TInv (ghostStep s op pc (hid, dy)).1 (ghostStep s op pc (hid, dy)).2 (stepOp Cfg.repaired s op pc).1 op2 pc2 := by
+  have hsafe : ∀ h, Safe hid dy s h →
+      Safe (ghostStep s op pc (hid, dy)).1 (ghostStep s op pc (hid, dy)).2 (stepOp Cfg.repaired s op pc).1 h :=
+    fun h hs => safe_stable ha.hasMono ha.hidNew ha.dyNew hs
+  cases op2 with
+  | instantiate h n p =>
+    obtain ⟨h1, h2, h3⟩ := ht
+    refine ⟨?_, ?_, fun e => hsafe h (h3 e)⟩
+    · intro e
+      have hn := h1 e
+      cases hq : (stepOp Cfg.repaired s op pc).1.has h with
+      | false => rfl
+      | true =>
+        rcases ha.newH h hq with e' | ⟨_, n', p', e'⟩
+        · rw [hn] at e'; exact absurd e' (by simp)
+        · exact absurd (hdist h n' p' n p e' rfl) id
+    · intro e
+      obtain ⟨e1, e2⟩ := h2 e
+      refine ⟨ha.hasMono h e1, ?_⟩
+      rcases e2 with e2 | e2
+      · exact Or.inl (ha.hidMono h e2)
+      · exact Or.inr (ha.dyMono h e2)
+  | lookup n => intro h e; exact hsafe h (ht h e)
+  | compile => trivial
+  | hostCompile f => trivial
+  | closeModule h c => intro e; exact hsafe h (ht e)
+  | closeRuntime c => trivial
+  | isClosed h => intro e; exact hsafe h (ht e)
+
+/-! ### histories, linearizability, the handle discipline -/
+
+/-- Events of an execution: invocation and return are observable; `lin t` marks the linearization point of the
+operation thread `t` has in progress (chosen by the prover, not observable). -/
+inductive Ev
+  | inv (t : Nat) (op : Op)
+  | lin (t : Nat)
+  | ret (t : Nat) (op : Op) (r : Res)
+deriving Repr, DecidableEq
+
+def Ev.isLin : Ev → Bool
+  | .lin _ => true
+  | _ => false
+
+/-- The observable event of thread `t`'s next step: it invokes its next operation, or returns from the one that
+is done; atomic actions are silent. -/
+def threadHist (t : Nat) (th : Thread) : List Ev :=
+  match th.cur with
+  | none =>
+    match th.todo with
+    | [] => []
+    | op :: _ => [.inv t op]
+  | some (op, pc) =>
+    match pc with
+    | .done r => [.ret t op r]
+    | _ => []
+
+def stepHist (c : Conc) (t : Nat) : List Ev :=
+  match c.threads[t]? with
+  | none => []
+  | some th => threadHist t th
+
+/-- The history (invocations and returns, in real-time order) of running schedule `sched` from `c`. -/
+def history (cfg : Cfg) (c : Conc) : List Nat → List Ev
+  | [] => []
+  | t :: sched => stepHist c t ++ history cfg (c.step cfg t) sched
+
+/-- State of the linearizability checker: the atomic registry, and per thread the operation in progress with
+its result once it has been linearized. -/
+structure LinSt where
+  reg : Reg
+  pend : Nat → Option (Op × Option Res)
+
+def LinSt.step (st : LinSt) : Ev → Option LinSt
+  | .inv t op =>
+    match st.pend t with
+    | none => some { st with pend := fun u => if u = t then some (op, none) else st.pend u }
+    | some _ => none
+  | .lin t =>
+    match st.pend t with
+    | some (op, none) =>
+      some { reg := (st.reg.step op).1,
+             pend := fun u => if u = t then some (op, some (st.reg.step op).2) else st.pend u }
+    | _ => none
+  | .ret t op x =>
+    match st.pend t with
+    | some (op', some x') =>
+      if op' = op ∧ x' = x then some { st with pend := fun u => if u = t then none else st.pend u } else none
+    | _ => none
+
+def LinSt.run (st : LinSt) : List Ev → Option LinSt
+  | [] => some st
+  | e :: es =>
+    match st.step e with
+    | none => none
+    | some st' => LinSt.run st' es
+
+def LinSt.init : LinSt := ⟨Reg.init, fun _ => none⟩
+
+/-- **Linearizability** of a history w.r.t. the atomic registry `Reg`: linearization points can be inserted —
+for every returned operation exactly one, between its invocation and its return (for a pending operation at most
+one, after its invocation) — such that the registry, executing the operations atomically in the order of their
+linearization points, returns to every operation exactly the result the history shows. (Real-time order and
+per-thread program order are respected because each point lies inside its operation's interval.) -/
+def Linearizable (hist : List Ev) : Prop :=
+  ∃ l : List Ev, l.filter (fun e => !e.isLin) = hist ∧ (LinSt.init.run l).isSome = true
+
+/-- State of the handle discipline: handles used by instantiate requests so far; handles the clients have
+obtained (from an instantiate that returned ok, or from a lookup). -/
+structure DiscSt where
+  used : List Nat := []
+  okH : List Nat := []
+deriving Repr, DecidableEq
+
+def DiscSt.step (d : DiscSt) : Ev → Option DiscSt
+  | .inv _ (.instantiate h _ _) => if h ∈ d.used then none else some { d with used := h :: d.used }
+  | .inv _ (.closeModule h _) => if h ∈ d.okH then some d else none
+  | .inv _ (.isClosed h) => if h ∈ d.okH then some d else none
+  | .ret _ (.instantiate h _ _) .ok => some { d with okH := h :: d.okH }
+  | .ret _ (.lookup _) (.found h) => some { d with okH := h :: d.okH }
+  | _ => some d
+
+def DiscSt.run (d : DiscSt) : List Ev → Option DiscSt
+  | [] => some d
+  | e :: es =>
+    match d.step e with
+    | none => none
+    | some d' => DiscSt.run d' es
+
+/-- **Handle discipline** of a history (how module handles arise in the real API): every instantiate request
+creates a new handle, and `closeModule h` / `isClosed h` are only invoked on a handle that an instantiate has
+already RETURNED successfully or that a lookup has already returned. (Without it the model is not linearizable
+even when repaired: `stillborn_visible_witness`.) -/
+def Disciplined (hist : List Ev) : Prop := (DiscSt.run {} hist).isSome = true
+
+instance (hist : List Ev) : Decidable (Disciplined hist) := by unfold Disciplined; infer_instance
+
+/-! ### the instrumented execution -/
+
+/-- Events of thread `t`'s next step including the linearization mark: the action that takes the operation from
+"not committed" (`post = none`) to "committed" is its linearization point. -/
+def threadLin (s : Impl) (t : Nat) (th : Thread) : List Ev :=
+  match th.cur with
+  | none =>
+    match th.todo with
+    | [] => []
+    | op :: _ => [.inv t op]
+  | some (op, pc) =>
+    match pc with
+    | .done r => [.ret t op r]
+    | _ => if (post pc).isNone && (post (stepOp Cfg.repaired s op pc).2).isSome then [.lin t] else []
+
+def stepLin (c : Conc) (t : Nat) : List Ev :=
+  match c.threads[t]? with
+  | none => []
+  | some th => threadLin c.shared t th
+
+def ltrace (c : Conc) : List Nat → List Ev
+  | [] => []
+  | t :: sched => stepLin c t ++ ltrace (c.step Cfg.repaired t) sched
+
+theorem threadLin_filter (s : Impl) (t : Nat) (th : Thread) :
+    (threadLin s t th).filter (fun e => !e.isLin) = threadHist t th := by
+  unfold threadLin threadHist
+  split
+  · split <;> simp [Ev.isLin]
+  · split
+    · simp [Ev.isLin]
+    · split <;> simp [Ev.isLin]
+
+theorem ltrace_filter (c : Conc) (sched : List Nat) :
+    (ltrace c sched).filter (fun e => !e.isLin) = history Cfg.repaired c sched := by
+  induction sched generalizing c with
+  | nil => rfl
+  | cons t sched ih =>
+    simp only [ltrace, history, List.filter_append, ih]
+    congr 1
+    unfold stepLin stepHist
+    split
+    · rfl
+    · exact threadLin_filter _ _ _
+
+/-! ### the forward simulation over interleavings -/
+
+theorem getElem?_updThread_self (t : Nat) (f : Thread → Thread) (l : List Thread) (th : Thread)
+    (h : l[t]? = some th) : (updThread t f l)[t]? = some (f th) := by
+  induction l generalizing t with
+  | nil => simp at h
+  | cons a l ih =>
+    cases t with
+    | zero => simp at h; simp [updThread, h]
+    | succ t => simp at h; simp [updThread, ih t h]
+
+theorem getElem?_updThread_ne (t u : Nat) (f : Thread → Thread) (l : List Thread) (hne : u ≠ t) :
+    (updThread t f l)[u]? = l[u]? := by
+  induction l generalizing t u with
+  | nil => simp [updThread]
+  | cons a l ih =>
+    cases t with
+    | zero =>
+      cases u with
+      | zero => exact absurd rfl hne
+      | succ u => simp [updThread]
+    | succ t =>
+      cases u with
+      | zero => simp [updThread]
+      | succ u => simp [updThread, ih t u (by omega)]
+
+theorem updThread_same (t : Nat) (l : List Thread) (th : Thread) (h : l[t]? = some th) :
+    updThread t (fun _ => th) l = l := by
+  induction l generalizing t with
+  | nil => simp at h
+  | cons a l ih =>
+    cases t with
+    | zero => simp at h; simp [updThread, h]
+    | succ t => simp at h; simp [updThread, ih t h]
+
+/-- thread `t` replaced by `th1`, shared state replaced by `s'` -/
+def updConc (c : Conc) (s' : Impl) (t : Nat) (th1 : Thread) : Conc :=
+  { shared := s', threads := updThread t (fun _ => th1) c.threads }
+
+theorem conc_step_some (cfg : Cfg) (c : Conc) (t : Nat) (th : Thread) (h : c.threads[t]? = some th) :
+    c.step cfg t = updConc c (stepThread cfg c.shared th).1 t (stepThread cfg c.shared th).2 := by
+  simp [Conc.step, h, updConc]
+
+theorem conc_step_none (cfg : Cfg) (c : Conc) (t : Nat) (h : c.threads[t]? = none) : c.step cfg t = c := by
+  simp [Conc.step, h]
+
+theorem stepThread_idle (cfg : Cfg) (s : Impl) (th : Thread) (h1 : th.cur = none) (h2 : th.todo = []) :
+    stepThread cfg s th = (s, th) := by
+  simp [stepThread, h1, h2]
+
+theorem stepThread_inv (cfg : Cfg) (s : Impl) (th : Thread) (op : Op) (rest : List Op) (h1 : th.cur = none)
+    (h2 : th.todo = op :: rest) :
+    stepThread cfg s th = (s, { th with cur := some (op, startPc cfg op), todo := rest }) := by
+  simp [stepThread, h1, h2]
+
+theorem stepThread_ret (cfg : Cfg) (s : Impl) (th : Thread) (op : Op) (r : Res) (h1 : th.cur = some (op, .done r)) :
+    stepThread cfg s th = (s, { th with cur := none, results := th.results ++ [(op, r)] }) := by
+  simp [stepThread, h1]
+
+theorem stepThread_act (cfg : Cfg) (s : Impl) (th : Thread) (op : Op) (pc : Pc) (h1 : th.cur = some (op, pc))
+    (hnd : ∀ r, pc ≠ .done r) :
+    stepThread cfg s th = ((stepOp cfg s op pc).1, { th with cur := some (op, (stepOp cfg s op pc).2) }) := by
+  cases pc <;> first | exact absurd rfl (hnd _) | simp [stepThread, h1]
+
+/-- The operation in progress of thread `u` with the result it is committed to. -/
+def pendOf (c : Conc) (u : Nat) : Option (Op × Option Res) :=
+  match c.threads[u]? with
+  | none => none
+  | some th =>
+    match th.cur with
+    | none => none
+    | some (op, pc) => some (op, post pc)
+
+/-- The checker state that corresponds to a configuration. -/
+def Rel (st : LinSt) (c : Conc) (hid dy : List Nat) : Prop :=
+  st.reg = absG hid dy c.shared ∧ ∀ u, st.pend u = pendOf c u
+
+/-- The invariant of the whole configuration (with the ghost sets and the discipline state). -/
+structure WInv (c : Conc) (hid dy : List Nat) (d : DiscSt) : Prop where
+  g : GInv hid dy c.shared
+  t : ∀ (t : Nat) (th : Thread) (op : Op) (pc : Pc), c.threads[t]? = some th → th.cur = some (op, pc) →
+    Compat op pc = true ∧ TInv hid dy c.shared op pc
+  usedI : ∀ h, c.shared.has h = true → h ∈ d.used
+  usedC : ∀ (t : Nat) (th : Thread) (h n : Nat) (p : Pre) (pc : Pc), c.threads[t]? = some th →
+    th.cur = some (.instantiate h n p, pc) → h ∈ d.used
+  pw : ∀ (t t' : Nat) (th th' : Thread) (h n : Nat) (p : Pre) (pc : Pc) (n' : Nat) (p' : Pre) (pc' : Pc), t ≠ t' →
+    c.threads[t]? = some th → c.threads[t']? = some th' →
+    th.cur = some (.instantiate h n p, pc) → th'.cur = some (.instantiate h n' p', pc') → False
+  okS : ∀ h ∈ d.okH, Safe hid dy c.shared h
+
+theorem post_startPc (op : Op) : post (startPc Cfg.repaired op) = none := by
+  cases op with
+  | instantiate h n p => cases p <;> rfl
+  | hostCompile f => rfl
+  | _ => rfl
+
+theorem compat_startPc (op : Op) : Compat op (startPc Cfg.repaired op) = true := by
+  cases op with
+  | instantiate h n p => cases p <;> rfl
+  | hostCompile f => rfl
+  | _ => rfl
+
+theorem preReg_startPc (h n : Nat) (p : Pre) : preReg (startPc Cfg.repaired (.instantiate h n p)) = true := by
+  cases p <;> rfl
+
+theorem winv_upd {c : Conc} {hid dy : List Nat} {d : DiscSt} (hw : WInv c hid dy d) {t : Nat} {th : Thread}
+    (hth : c.threads[t]? = some th) {s' : Impl} {hid' dy' : List Nat} {d' : DiscSt} {th1 : Thread}
+    (hg : GInv hid' dy' s')
+    (hself : ∀ op pc, th1.cur = some (op, pc) → Compat op pc = true ∧ TInv hid' dy' s' op pc)
+    (hother : ∀ (u : Nat) (thu : Thread) (op : Op) (pc : Pc), u ≠ t → c.threads[u]? = some thu →
+      thu.cur = some (op, pc) → TInv hid' dy' s' op pc)
+    (husedI : ∀ h, s'.has h = true → h ∈ d'.used)
+    (husedMono : ∀ h ∈ d.used, h ∈ d'.used)
+    (hselfUsed : ∀ h n p pc, th1.cur = some (.instantiate h n p, pc) → h ∈ d'.used)
+    (hselfPw : ∀ h n p pc, th1.cur = some (.instantiate h n p, pc) → ∀ (u : Nat) (thu : Thread) n' p' pc', u ≠ t →
+      c.threads[u]? = some thu → thu.cur = some (.instantiate h n' p', pc') → False)
+    (hok : ∀ h ∈ d'.okH, Safe hid' dy' s' h) :
+    WInv (updConc c s' t th1) hid' dy' d' := by
+  show WInv { shared := s', threads := updThread t (fun _ => th1) c.threads } hid' dy' d'
+  have hget : ∀ u thu, (updThread t (fun _ => th1) c.threads)[u]? = some thu →
+      (u = t ∧ thu = th1) ∨ (u ≠ t ∧ c.threads[u]? = some thu) := by
+    intro u thu h
+    by_cases e : u = t
+    · subst e
+      rw [getElem?_updThread_self _ _ _ th hth] at h
+      exact Or.inl ⟨rfl, by simpa using h.symm⟩
+    · rw [getElem?_updThread_ne _ _ _ _ e] at h
+      exact Or.inr ⟨e, h⟩
+  refine ⟨hg, ?_, husedI, ?_, ?_, hok⟩
+  · intro u thu op pc h1 h2
+    rcases hget u thu h1 with ⟨_, rfl⟩ | ⟨e, h1'⟩
+    · exact hself op pc h2
+    · exact ⟨(hw.t u thu op pc h1' h2).1, hother u thu op pc e h1' h2⟩
+  · intro u thu h n p pc h1 h2
+    rcases hget u thu h1 with ⟨_, rfl⟩ | ⟨e, h1'⟩
+    · exact hselfUsed h n p pc h2
+    · exact husedMono h (hw.usedC u thu h n p pc h1' h2)
+  · intro u u' thu thu' h n p pc n' p' pc' hne h1 h1' h2 h2'
+    rcases hget u thu h1 with ⟨e, rfl⟩ | ⟨e, g1⟩ <;> rcases hget u' thu' h1' with ⟨e', rfl⟩ | ⟨e', g1'⟩
+    · exact hne (e.trans e'.symm)
+    · exact hselfPw h n p pc h2 u' thu' n' p' pc' e' g1' h2'
+    · exact hselfPw h n' p' pc' h2' u thu n p pc e g1 h2
+    · exact hw.pw u u' thu thu' h n p pc n' p' pc' hne g1 g1' h2 h2'
+
+theorem pendOf_upd {c : Conc} {t : Nat} {th : Thread} (hth : c.threads[t]? = some th) (s' : Impl) (th1 : Thread)
+    (u : Nat) :
+    pendOf (updConc c s' t th1) u =
+      if u = t then (match th1.cur with | none => none | some (op, pc) => some (op, post pc)) else pendOf c u := by
+  by_cases e : u = t
+  · subst e; simp [pendOf, updConc, getElem?_updThread_self _ _ _ th hth]
+  · simp [pendOf, updConc, getElem?_updThread_ne _ _ _ _ e, e]
+
+theorem pendOf_self {c : Conc} {t : Nat} {th : Thread} (hth : c.threads[t]? = some th) :
+    pendOf c t = (match th.cur with | none => none | some (op, pc) => some (op, post pc)) := by
+  simp [pendOf, hth]
+
+theorem disc_run_single {d d' : DiscSt} {e : Ev} (h : d.run [e] = some d') : d.step e = some d' := by
+  simp only [DiscSt.run] at h
+  split at h
+  · simp at h
+  · rename_i d1 hd1; rw [hd1]; simpa [DiscSt.run] using h
+
+theorem disc_inv {d d' : DiscSt} {t : Nat} {op : Op} (h : d.step (.inv t op) = some d') :
+    d'.okH = d.okH ∧ (∀ k, k ∈ d'.used ↔ k ∈ d.used ∨ ∃ n p, op = .instantiate k n p) ∧
+    (∀ k n p, op = .instantiate k n p → k ∉ d.used) ∧
+    (∀ k c, op = .closeModule k c → k ∈ d.okH) ∧ (∀ k, op = .isClosed k → k ∈ d.okH) := by
+  cases op with
+  | instantiate h0 n p =>
+    simp only [DiscSt.step] at h
+    split at h
+    · simp at h
+    · rename_i hn
+      have : d' = { d with used := h0 :: d.used } := by simpa using h.symm
+      subst this
+      refine ⟨rfl, ?_, ?_, by simp, by simp⟩
+      · intro k; simp only [List.mem_cons]
+        constructor
+        · rintro (e | e)
+          · exact Or.inr ⟨n, p, by rw [e]⟩
+          · exact Or.inl e
+        · rintro (e | ⟨n', p', e⟩)
+          · exact Or.inr e
+          · simp only [Op.instantiate.injEq] at e; exact Or.inl e.1.symm
+      · intro k n' p' e
+        simp only [Op.instantiate.injEq] at e; rw [← e.1]; exact hn
+  | closeModule h0 c =>
+    simp only [DiscSt.step] at h
+    split at h
+    · rename_i hm
+      have : d' = d := by simpa using h.symm
+      subst this
+      exact ⟨rfl, by simp, by simp, by intro k c' e; simp only [Op.closeModule.injEq] at e; rw [← e.1]; exact hm, by simp⟩
+    · simp at h
+  | isClosed h0 =>
+    simp only [DiscSt.step] at h
+    split at h
+    · rename_i hm
+      have : d' = d := by simpa using h.symm
+      subst this
+      exact ⟨rfl, by simp, by simp, by simp, by intro k e; simp only [Op.isClosed.injEq] at e; rw [← e]; exact hm⟩
+    · simp at h
+  | lookup n =>
+    have : d' = d := by simpa [DiscSt.step] using h.symm
+    subst this; exact ⟨rfl, by simp, by simp, by simp, by simp⟩
+  | compile =>
+    have : d' = d := by simpa [DiscSt.step] using h.symm
+    subst this; exact ⟨rfl, by simp, by simp, by simp, by simp⟩
+  | hostCompile f =>
+    have : d' = d := by simpa [DiscSt.step] using h.symm
+    subst this; exact ⟨rfl, by simp, by simp, by simp, by simp⟩
+  | closeRuntime c =>
+    have : d' = d := by simpa [DiscSt.step] using h.symm
+    subst this; exact ⟨rfl, by simp, by simp, by simp, by simp⟩
+
+theorem disc_ret {d d' : DiscSt} {t : Nat} {op : Op} {r : Res} (h : d.step (.ret t op r) = some d') :
+    d'.used = d.used ∧ ∀ k ∈ d'.okH, k ∈ d.okH ∨ (∃ n p, op = .instantiate k n p ∧ r = .ok) ∨
+      (∃ n, op = .lookup n ∧ r = .found k) := by
+  cases op with
+  | instantiate h0 n p =>
+    cases r with
+    | ok =>
+      have : d' = { d with okH := h0 :: d.okH } := by simpa [DiscSt.step] using h.symm
+      subst this
+      refine ⟨rfl, ?_⟩
+      intro k hk
+      rcases List.mem_cons.mp hk with e | e
+      · exact Or.inr (Or.inl ⟨n, p, by rw [e], rfl⟩)
+      · exact Or.inl e
+    | _ =>
+      have : d' = d := by simpa [DiscSt.step] using h.symm
+      subst this; exact ⟨rfl, fun k hk => Or.inl hk⟩
+  | lookup n =>
+    cases r with
+    | found h0 =>
+      have : d' = { d with okH := h0 :: d.okH } := by simpa [DiscSt.step] using h.symm
+      subst this
+      refine ⟨rfl, ?_⟩
+      intro k hk
+      rcases List.mem_cons.mp hk with e | e
+      · exact Or.inr (Or.inr ⟨n, rfl, by rw [e]⟩)
+      · exact Or.inl e
+    | _ =>
+      have : d' = d := by simpa [DiscSt.step] using h.symm
+      subst this; exact ⟨rfl, fun k hk => Or.inl hk⟩
+  | compile =>
+    have : d' = d := by simpa [DiscSt.step] using h.symm
+    subst this; exact ⟨rfl, fun k hk => Or.inl hk⟩
+  | hostCompile f =>
+    have : d' = d := by simpa [DiscSt.step] using h.symm
+    subst this; exact ⟨rfl, fun k hk => Or.inl hk⟩
+  | closeRuntime c =>
+    have : d' = d := by simpa [DiscSt.step] using h.symm
+    subst this; exact ⟨rfl, fun k hk => Or.inl hk⟩
+  | closeModule h0 c =>
+    have : d' = d := by simpa [DiscSt.step] using h.symm
+    subst this; exact ⟨rfl, fun k hk => Or.inl hk⟩
+  | isClosed h0 =>
+    have : d' = d := by simpa [DiscSt.step] using h.symm
+    subst this; exact ⟨rfl, fun k hk => Or.inl hk⟩
+
+theorem sim_invoke {c : Conc} {hid dy : List Nat} {d d' : DiscSt} {st : LinSt} {t : Nat} {th : Thread}
+    (hw : WInv c hid dy d) (hr : Rel st c hid dy) (hth : c.threads[t]? = some th) (hcur : th.cur = none)
+    (op : Op) (rest : List Op) (hd : d.step (.inv t op) = some d') :
+    ∃ st', WInv (updConc c c.shared t { th with cur := some (op, startPc Cfg.repaired op), todo := rest }) hid dy d' ∧
+      Rel st' (updConc c c.shared t { th with cur := some (op, startPc Cfg.repaired op), todo := rest }) hid dy ∧
+      st.run [.inv t op] = some st' := by
+  obtain ⟨dok, dused, dfresh, dclose, dis⟩ := disc_inv hd
+  have hpend : st.pend t = none := by rw [hr.2 t, pendOf_self hth, hcur]
+  refine ⟨{ st with pend := fun u => if u = t then some (op, none) else st.pend u }, ?_, ?_, ?_⟩
+  · refine winv_upd hw hth hw.g ?_ ?_ ?_ ?_ ?_ ?_ ?_
+    · intro op' pc' e
+      simp only [Option.some.injEq, Prod.mk.injEq] at e
+      obtain ⟨rfl, rfl⟩ := e
+      refine ⟨compat_startPc _, ?_⟩
+      cases op with
+      | instantiate h n p =>
+        have hn : c.shared.has h = false := by
+          cases hq : c.shared.has h with
+          | false => rfl
+          | true => exact absurd (hw.usedI h hq) (dfresh h n p rfl)
+        refine ⟨fun _ => hn, ?_, ?_⟩
+        · intro e; cases p <;> simp [startPc, fPhase, Cfg.repaired] at e
+        · intro e; cases p <;> simp [startPc, Cfg.repaired] at e
+      | closeModule h cc => intro _; exact hw.okS h (dclose h cc rfl)
+      | isClosed h => intro _; exact hw.okS h (dis h rfl)
+      | lookup n => intro h e; simp [startPc] at e
+      | compile => trivial
+      | hostCompile f => trivial
+      | closeRuntime cc => trivial
+    · intro u thu op' pc' _ h1 h2; exact (hw.t u thu op' pc' h1 h2).2
+    · intro h hh; exact (dused h).mpr (Or.inl (hw.usedI h hh))
+    · intro h hh; exact (dused h).mpr (Or.inl hh)
+    · intro h n p pc' e
+      simp only [Option.some.injEq, Prod.mk.injEq] at e
+      exact (dused h).mpr (Or.inr ⟨n, p, e.1⟩)
+    · intro h n p pc' e u thu n' p' pc'' _ h1 h2
+      simp only [Option.some.injEq, Prod.mk.injEq] at e
+      exact dfresh h n p e.1 (hw.usedC u thu h n' p' pc'' h1 h2)
+    · intro h hh; rw [dok] at hh; exact hw.okS h hh
+  · refine ⟨hr.1, ?_⟩
+    intro u
+    rw [pendOf_upd hth]
+    by_cases e : u = t
+    · simp [e, post_startPc]
+    · simp [e, hr.2 u]
+  · simp [LinSt.run, LinSt.step, hpend]
+
+theorem sim_return {c : Conc} {hid dy : List Nat} {d d' : DiscSt} {st : LinSt} {t : Nat} {th : Thread}
+    (hw : WInv c hid dy d) (hr : Rel st c hid dy) (hth : c.threads[t]? = some th) (op : Op) (r : Res)
+    (hcur : th.cur = some (op, .done r)) (hd : d.step (.ret t op r) = some d') :
+    ∃ st', WInv (updConc c c.shared t { th with cur := none, results := th.results ++ [(op, r)] }) hid dy d' ∧
+      Rel st' (updConc c c.shared t { th with cur := none, results := th.results ++ [(op, r)] }) hid dy ∧
+      st.run [.ret t op r] = some st' := by
+  obtain ⟨dused, dok⟩ := disc_ret hd
+  have hpend : st.pend t = some (op, some r) := by rw [hr.2 t, pendOf_self hth, hcur]; rfl
+  have htinv := (hw.t t th op (.done r) hth hcur).2
+  refine ⟨{ st with pend := fun u => if u = t then none else st.pend u }, ?_, ?_, ?_⟩
+  · refine winv_upd hw hth hw.g ?_ ?_ ?_ ?_ ?_ ?_ ?_
+    · intro op' pc' e; simp at e
+    · intro u thu op' pc' _ h1 h2; exact (hw.t u thu op' pc' h1 h2).2
+    · intro h hh; rw [dused]; exact hw.usedI h hh
+    · intro h hh; rw [dused]; exact hh
+    · intro h n p pc' e; simp at e
+    · intro h n p pc' e; simp at e
+    · intro h hh
+      rcases dok h hh with e | ⟨n, p, e1, e2⟩ | ⟨n, e1, e2⟩
+      · exact hw.okS h e
+      · subst e1 e2; exact htinv.2.2 rfl
+      · subst e1 e2; exact htinv h rfl
+  · refine ⟨hr.1, ?_⟩
+    intro u
+    rw [pendOf_upd hth]
+    by_cases e : u = t
+    · simp [e]
+    · simp [e, hr.2 u]
+  · simp [LinSt.run, LinSt.step, hpend]
+
+theorem sim_action {c : Conc} {hid dy : List Nat} {d : DiscSt} {st : LinSt} {t : Nat} {th : Thread}
+    (hw : WInv c hid dy d) (hr : Rel st c hid dy) (hth : c.threads[t]? = some th) (op : Op) (pc : Pc)
+    (hcur : th.cur = some (op, pc)) (hnd : ∀ r, pc ≠ .done r) :
+    ∃ hid' dy' st', WInv (updConc c (stepOp Cfg.repaired c.shared op pc).1 t { th with cur := some (op, (stepOp Cfg.repaired c.shared op pc).2) }) hid' dy' d ∧
+      Rel st' (updConc c (stepOp Cfg.repaired c.shared op pc).1 t { th with cur := some (op, (stepOp Cfg.repaired c.shared op pc).2) }) hid' dy' ∧
+      st.run (if (post pc).isNone && (post (stepOp Cfg.repaired c.shared op pc).2).isSome then [.lin t] else [])
+        = some st' := by
+  obtain ⟨hcomp, htinv⟩ := hw.t t th op pc hth hcur
+  have ha := action hw.g op pc hcomp htinv hnd
+  have hpend : st.pend t = some (op, post pc) := by rw [hr.2 t, pendOf_self hth, hcur]
+  have hW : WInv (updConc c (stepOp Cfg.repaired c.shared op pc).1 t { th with cur := some (op, (stepOp Cfg.repaired c.shared op pc).2) })
+        (ghostStep c.shared op pc (hid, dy)).1 (ghostStep c.shared op pc (hid, dy)).2 d := by
+    refine winv_upd hw hth ha.ginv ?_ ?_ ?_ ?_ ?_ ?_ ?_
+    · intro op' pc' e
+      simp only [Option.some.injEq, Prod.mk.injEq] at e
+      obtain ⟨rfl, rfl⟩ := e
+      exact ⟨ha.compat, ha.tinv⟩
+    · intro u thu op' pc' hne h1 h2
+      refine tinv_stable ha op' pc' (hw.t u thu op' pc' h1 h2).2 ?_
+      intro h n p n' p' e1 e2
+      subst e1 e2
+      exact hw.pw t u th thu h n p pc n' p' pc' (Ne.symm hne) hth h1 hcur h2
+    · intro h hh
+      rcases ha.newH h hh with e | ⟨_, n, p, e⟩
+      · exact hw.usedI h e
+      · subst e; exact hw.usedC t th h n p pc hth hcur
+    · intro h hh; exact hh
+    · intro h n p pc' e
+      simp only [Option.some.injEq, Prod.mk.injEq] at e
+      obtain ⟨rfl, _⟩ := e
+      exact hw.usedC t th h n p pc hth hcur
+    · intro h n p pc' e u thu n' p' pc'' hne h1 h2
+      simp only [Option.some.injEq, Prod.mk.injEq] at e
+      obtain ⟨rfl, _⟩ := e
+      exact hw.pw t u th thu h n p pc n' p' pc'' (Ne.symm hne) hth h1 hcur h2
+    · intro h hh; exact safe_stable ha.hasMono ha.hidNew ha.dyNew (hw.okS h hh)
+  have hlin := ha.lin
+  rw [← hr.1] at hlin
+  have hpu : ∀ u, u ≠ t → pendOf (updConc c (stepOp Cfg.repaired c.shared op pc).1 t
+      { th with cur := some (op, (stepOp Cfg.repaired c.shared op pc).2) }) u = pendOf c u := by
+    intro u hu; rw [pendOf_upd hth]; simp [hu]
+  have hpt : pendOf (updConc c (stepOp Cfg.repaired c.shared op pc).1 t
+      { th with cur := some (op, (stepOp Cfg.repaired c.shared op pc).2) }) t =
+      some (op, post (stepOp Cfg.repaired c.shared op pc).2) := by
+    rw [pendOf_upd hth]; simp
+  cases hp : post pc with
+  | some x =>
+    rw [hp] at hlin hpend
+    simp only [LinRel] at hlin
+    obtain ⟨hy, hreg⟩ := hlin
+    refine ⟨_, _, st, hW, ⟨hreg.symm, ?_⟩, by simp [LinSt.run]⟩
+    intro u
+    by_cases e : u = t
+    · subst e; rw [hpt, hpend, hy]
+    · rw [hpu u e]; exact hr.2 u
+  | none =>
+    rw [hp] at hlin hpend
+    cases hp' : post (stepOp Cfg.repaired c.shared op pc).2 with
+    | none =>
+      rw [hp'] at hlin
+      simp only [LinRel] at hlin
+      refine ⟨_, _, st, hW, ⟨hlin.symm, ?_⟩, by simp [LinSt.run]⟩
+      intro u
+      by_cases e : u = t
+      · subst e; rw [hpt, hpend, hp']
+      · rw [hpu u e]; exact hr.2 u
+    | some x =>
+      rw [hp'] at hlin
+      simp only [LinRel] at hlin
+      refine ⟨_, _, LinSt.mk (st.reg.step op).1
+          (fun u => if u = t then some (op, some (st.reg.step op).2) else st.pend u), hW, ⟨?_, ?_⟩, ?_⟩
+      · simp [hlin, updConc]
+      · intro u
+        by_cases e : u = t
+        · subst e; rw [hpt, hp']; simp [hlin]
+        · rw [hpu u e]; simp [e, hr.2 u]
+      · simp [LinSt.run, LinSt.step, hpend]
+
+/-- **One scheduler step.** From a configuration satisfying the invariant, with the checker in the corresponding
+state, a step whose observable event respects the handle discipline leads to a configuration satisfying the
+invariant (with new ghost sets), and the checker accepts the step's events (with the linearization mark) and
+ends in the corresponding state. -/
+theorem conc_step_sim (c : Conc) (hid dy : List Nat) (d d' : DiscSt) (st : LinSt) (t : Nat)
+    (hw : WInv c hid dy d) (hr : Rel st c hid dy) (hd : d.run (stepHist c t) = some d') :
+    ∃ hid' dy' st', WInv (c.step Cfg.repaired t) hid' dy' d' ∧ Rel st' (c.step Cfg.repaired t) hid' dy' ∧
+      st.run (stepLin c t) = some st' := by
+  cases hth : c.threads[t]? with
+  | none =>
+    simp only [stepHist, hth, DiscSt.run] at hd
+    have : d' = d := by simpa using hd.symm
+    subst this
+    rw [conc_step_none _ _ _ hth]
+    exact ⟨hid, dy, st, hw, hr, by simp [stepLin, hth, LinSt.run]⟩
+  | some th =>
+    rw [conc_step_some _ _ _ _ hth]
+    simp only [stepHist, hth] at hd
+    simp only [stepLin, hth]
+    cases hcur : th.cur with
+    | none =>
+      cases htodo : th.todo with
+      | nil =>
+        simp only [threadHist, hcur, htodo, DiscSt.run] at hd
+        have : d' = d := by simpa using hd.symm
+        subst this
+        rw [stepThread_idle _ _ _ hcur htodo]
+        have hsame : updConc c c.shared t th = c := by simp [updConc, updThread_same _ _ _ hth]
+        rw [hsame]
+        exact ⟨hid, dy, st, hw, hr, by simp [threadLin, hcur, htodo, LinSt.run]⟩
+      | cons op rest =>
+        simp only [threadHist, hcur, htodo] at hd
+        rw [stepThread_inv _ _ _ op rest hcur htodo]
+        obtain ⟨st', h1, h2, h3⟩ := sim_invoke hw hr hth hcur op rest (disc_run_single hd)
+        exact ⟨hid, dy, st', h1, h2, by simpa [threadLin, hcur, htodo] using h3⟩
+    | some cur =>
+      obtain ⟨op, pc⟩ := cur
+      by_cases hdone : ∃ r, pc = .done r
+      · obtain ⟨r, rfl⟩ := hdone
+        simp only [threadHist, hcur] at hd
+        rw [stepThread_ret _ _ _ op r hcur]
+        obtain ⟨st', h1, h2, h3⟩ := sim_return hw hr hth op r hcur (disc_run_single hd)
+        exact ⟨hid, dy, st', h1, h2, by simpa [threadLin, hcur] using h3⟩
+      · have hnd : ∀ r, pc ≠ .done r := fun r e => hdone ⟨r, e⟩
+        have hd0 : d' = d := by
+          have : threadHist t th = [] := by
+            cases pc <;> first | exact absurd rfl (hnd _) | simp [threadHist, hcur]
+          rw [this] at hd; simpa [DiscSt.run] using hd.symm
+        subst hd0
+        rw [stepThread_act _ _ _ op pc hcur hnd]
+        obtain ⟨hid', dy', st', h1, h2, h3⟩ := sim_action hw hr hth op pc hcur hnd
+        refine ⟨hid', dy', st', h1, h2, ?_⟩
+        have : threadLin c.shared t th =
+            (if (post pc).isNone && (post (stepOp Cfg.repaired c.shared op pc).2).isSome then [.lin t] else []) := by
+          cases pc <;> first | exact absurd rfl (hnd _) | simp [threadLin, hcur]
+        rw [this]; exact h3
+
+theorem disc_run_append (d : DiscSt) (a b : List Ev) :
+    d.run (a ++ b) = (d.run a).bind (fun d1 => d1.run b) := by
+  induction a generalizing d with
+  | nil => rfl
+  | cons e a ih =>
+    simp only [List.cons_append, DiscSt.run]
+    cases d.step e with
+    | none => rfl
+    | some d1 => exact ih d1
+
+theorem lin_run_append (st : LinSt) (a b : List Ev) :
+    st.run (a ++ b) = (st.run a).bind (fun s1 => s1.run b) := by
+  induction a generalizing st with
+  | nil => rfl
+  | cons e a ih =>
+    simp only [List.cons_append, LinSt.run]
+    cases st.step e with
+    | none => rfl
+    | some s1 => exact ih s1
+
+/-- The forward simulation along a whole schedule. -/
+theorem conc_sim (sched : List Nat) : ∀ (c : Conc) (hid dy : List Nat) (d : DiscSt) (st : LinSt),
+    WInv c hid dy d → Rel st c hid dy → (d.run (history Cfg.repaired c sched)).isSome = true →
+    (st.run (ltrace c sched)).isSome = true := by
+  induction sched with
+  | nil => intro c hid dy d st _ _ _; rfl
+  | cons t sched ih =>
+    intro c hid dy d st hw hr hd
+    simp only [history, disc_run_append] at hd
+    cases hd1 : d.run (stepHist c t) with
+    | none => simp [hd1] at hd
+    | some d' =>
+      rw [hd1] at hd
+      obtain ⟨hid', dy', st', hw', hr', hrun⟩ := conc_step_sim c hid dy d d' st t hw hr hd1
+      simp only [ltrace, lin_run_append, hrun]
+      exact ih _ hid' dy' d' st' hw' hr' hd
+
+theorem winv_start (progs : List (List Op)) : WInv (Conc.start progs) [] [] {} := by
+  have hcur : ∀ (t : Nat) (th : Thread), (Conc.start progs).threads[t]? = some th → th.cur = none := by
+    intro t th h
+    simp only [Conc.start, List.getElem?_map] at h
+    cases hp : progs[t]? with
+    | none => simp [hp] at h
+    | some p => simp [hp] at h; rw [← h]
+  refine ⟨ginv_init, ?_, ?_, ?_, ?_, ?_⟩
+  · intro t th op pc h1 h2; rw [hcur t th h1] at h2; simp at h2
+  · intro h hh; simp [Conc.start, Impl.has] at hh
+  · intro t th h n p pc h1 h2; rw [hcur t th h1] at h2; simp at h2
+  · intro t t' th th' h n p pc n' p' pc' _ h1 _ h2; rw [hcur t th h1] at h2; simp at h2
+  · intro h hh; simp at hh
+
+theorem rel_start (progs : List (List Op)) : Rel LinSt.init (Conc.start progs) [] [] := by
+  refine ⟨?_, ?_⟩
+  · show Reg.init = absG [] [] Impl.init
+    rw [absG_nil]; rfl
+  · intro u
+    simp only [LinSt.init, pendOf, Conc.start, List.getElem?_map]
+    cases hp : progs[u]? with
+    | none => simp
+    | some p => simp
+
+/-- **Linearizability under all interleavings (repaired variant).** Any number of threads, any programs, any
+schedule (interleaved at atomic-action granularity), any prefix of the execution, complete or not: if the
+history respects the handle discipline, it is linearizable w.r.t. the atomic registry. The linearization points
+are: the last read of a compile / host compile request; `failIfClosed` or the types section when they refuse,
+else the `registerModule` critical section, for instantiate; the CAS + `deleteModule` action for closeModule;
+the CAS + `Store.CloseWithExitCode` action for closeRuntime; the single action of lookup and isClosed. -/
+theorem conc_linearizable (progs : List (List Op)) (sched : List Nat)
+    (hd : Disciplined (history Cfg.repaired (Conc.start progs) sched)) :
+    Linearizable (history Cfg.repaired (Conc.start progs) sched) :=
+  ⟨ltrace (Conc.start progs) sched, ltrace_filter _ _,
+    conc_sim sched _ [] [] {} LinSt.init (winv_start progs) (rel_start progs) hd⟩
+
+/-! ### a complete search for linearizations (to REFUTE linearizability of concrete histories by `decide`) -/
+
+/-- pending map as an association list, newest binding first -/
+def lookupP (u : Nat) : List (Nat × Option (Op × Option Res)) → Option (Op × Option Res)
+  | [] => none
+  | (k, v) :: rest => if k = u then v else lookupP u rest
+
+/-- Depth-first search over all ways to insert linearization points into `hist`: at every point either the next
+observable event is consumed or one pending, not yet linearized operation is linearized. -/
+def linSearch : Nat → Reg → List (Nat × Option (Op × Option Res)) → List Ev → Bool
+  | 0, _, _, _ => false
+  | fuel + 1, reg, pend, hist =>
+    (match hist with
+     | [] => true
+     | .inv t op :: rest =>
+       (match lookupP t pend with
+        | none => linSearch fuel reg ((t, some (op, none)) :: pend) rest
+        | some _ => false)
+     | .ret t op x :: rest =>
+       (match lookupP t pend with
+        | some (op', some x') => decide (op' = op ∧ x' = x) && linSearch fuel reg ((t, none) :: pend) rest
+        | _ => false)
+     | .lin _ :: _ => false)
+    || pend.any (fun kv =>
+        match lookupP kv.1 pend with
+        | some (op, none) =>
+          linSearch fuel (reg.step op).1 ((kv.1, some (op, some (reg.step op).2)) :: pend) hist
+        | _ => false)
+
+theorem lookupP_mem {u : Nat} {pend : List (Nat × Option (Op × Option Res))} {v : Op × Option Res}
+    (h : lookupP u pend = some v) : ∃ kv ∈ pend, kv.1 = u := by
+  induction pend with
+  | nil => simp [lookupP] at h
+  | cons a pend ih =>
+    obtain ⟨k, w⟩ := a
+    simp only [lookupP] at h
+    by_cases e : k = u
+    · exact ⟨(k, w), List.mem_cons_self, e⟩
+    · simp only [e, if_false] at h
+      obtain ⟨kv, hkv, e'⟩ := ih h
+      exact ⟨kv, List.mem_cons_of_mem _ hkv, e'⟩
+
+theorem pend_cons {f : Nat → Option (Op × Option Res)} {pend : List (Nat × Option (Op × Option Res))}
+    (hp : ∀ u, f u = lookupP u pend) (t : Nat) (v : Option (Op × Option Res)) (u : Nat) :
+    (if u = t then v else f u) = lookupP u ((t, v) :: pend) := by
+  by_cases e : u = t
+  · subst e; simp [lookupP]
+  · have e' : ¬ t = u := fun h => e h.symm
+    simp [lookupP, e, e', hp u]
+
+/-- The search finds every linearization. -/
+theorem linSearch_complete (l : List Ev) : ∀ (st : LinSt) (pend : List (Nat × Option (Op × Option Res)))
+    (hist : List Ev) (fuel : Nat), (∀ u, st.pend u = lookupP u pend) → l.filter (fun e => !e.isLin) = hist →
+    (st.run l).isSome = true → l.length < fuel → linSearch fuel st.reg pend hist = true := by
+  induction l with
+  | nil =>
+    intro st pend hist fuel _ hf _ hlen
+    cases fuel with
+    | zero => omega
+    | succ fuel => simp at hf; subst hf; simp [linSearch]
+  | cons e l ih =>
+    intro st pend hist fuel hp hf hrun hlen
+    cases fuel with
+    | zero => omega
+    | succ fuel =>
+      have hlen' : l.length < fuel := by simp at hlen; omega
+      simp only [LinSt.run] at hrun
+      cases hstep : st.step e with
+      | none => simp [hstep] at hrun
+      | some st1 =>
+        have hrun1 : (st1.run l).isSome = true := by simpa [hstep] using hrun
+        clear hrun
+        cases e with
+        | inv t op =>
+          simp only [List.filter_cons, Ev.isLin, Bool.not_false, if_true] at hf
+          subst hf
+          simp only [LinSt.step] at hstep
+          cases hpt : st.pend t with
+          | some v => simp [hpt] at hstep
+          | none =>
+            simp only [hpt, Option.some.injEq] at hstep
+            subst hstep
+            have hl : lookupP t pend = none := by rw [← hp t]; exact hpt
+            simp only [linSearch, hl]
+            apply Bool.or_eq_true_iff.mpr; left
+            exact ih ⟨st.reg, fun u => if u = t then some (op, none) else st.pend u⟩
+              ((t, some (op, none)) :: pend) _ fuel (pend_cons hp t _) rfl hrun1 hlen'
+        | ret t op x =>
+          simp only [List.filter_cons, Ev.isLin, Bool.not_false, if_true] at hf
+          subst hf
+          simp only [LinSt.step] at hstep
+          cases hpt : st.pend t with
+          | none => simp [hpt] at hstep
+          | some v =>
+            obtain ⟨op', r'⟩ := v
+            cases r' with
+            | none => simp [hpt] at hstep
+            | some x' =>
+              simp only [hpt] at hstep
+              by_cases hc : op' = op ∧ x' = x
+              · simp only [hc, and_self, if_true, Option.some.injEq] at hstep
+                subst hstep
+                have hl : lookupP t pend = some (op', some x') := by rw [← hp t]; exact hpt
+                simp only [linSearch, hl]
+                apply Bool.or_eq_true_iff.mpr; left
+                simp only [hc, and_self, decide_true, Bool.true_and]
+                exact ih ⟨st.reg, fun u => if u = t then none else st.pend u⟩
+                  ((t, none) :: pend) _ fuel (pend_cons hp t _) rfl hrun1 hlen'
+              · simp [hc] at hstep
+        | lin t =>
+          have hf' : l.filter (fun e => !e.isLin) = hist := by
+            have : (Ev.lin t :: l).filter (fun e => !e.isLin) = l.filter (fun e => !e.isLin) := by
+              rw [List.filter_cons]; rfl
+            rw [← this]; exact hf
+          simp only [LinSt.step] at hstep
+          cases hpt : st.pend t with
+          | none => simp [hpt] at hstep
+          | some v =>
+            obtain ⟨op, r⟩ := v
+            cases r with
+            | some x => simp [hpt] at hstep
+            | none =>
+              simp only [hpt, Option.some.injEq] at hstep
+              subst hstep
+              have hl : lookupP t pend = some (op, none) := by rw [← hp t]; exact hpt
+              obtain ⟨kv, hkv, hk⟩ := lookupP_mem hl
+              simp only [linSearch]
+              apply Bool.or_eq_true_iff.mpr; right
+              apply List.any_eq_true.mpr
+              refine ⟨kv, hkv, ?_⟩
+              rw [hk, hl]
+              exact ih ⟨(st.reg.step op).1, fun u => if u = t then some (op, some (st.reg.step op).2) else st.pend u⟩
+                ((t, some (op, some (st.reg.step op).2)) :: pend) _ fuel (pend_cons hp t _) hf'
+                hrun1 hlen'
+
+/-- An accepted list has at most as many linearization marks as invocations (plus the operations that were
+pending and not linearized at the start). -/
+theorem lin_count_bound (l : List Ev) : ∀ (st : LinSt) (S : List Nat),
+    (∀ u op, st.pend u = some (op, none) → u ∈ S) → (st.run l).isSome = true →
+    (l.filter Ev.isLin).length ≤ (l.filter (fun e => !e.isLin)).length + S.length := by
+  induction l with
+  | nil => intro st S _ _; simp
+  | cons e l ih =>
+    intro st S hS hrun
+    simp only [LinSt.run] at hrun
+    cases hstep : st.step e with
+    | none => simp [hstep] at hrun
+    | some st1 =>
+      have hrun1 : (st1.run l).isSome = true := by simpa [hstep] using hrun
+      cases e with
+      | inv t op =>
+        simp only [LinSt.step] at hstep
+        cases hpt : st.pend t with
+        | some v => simp [hpt] at hstep
+        | none =>
+          simp only [hpt, Option.some.injEq] at hstep
+          subst hstep
+          have := ih _ (t :: S) (by
+            intro u op' h
+            by_cases e : u = t
+            · simp [e]
+            · simp only [e, if_false] at h; exact List.mem_cons_of_mem _ (hS u op' h)) hrun1
+          simp [Ev.isLin] at this ⊢
+          omega
+      | ret t op x =>
+        simp only [LinSt.step] at hstep
+        cases hpt : st.pend t with
+        | none => simp [hpt] at hstep
+        | some v =>
+          obtain ⟨op', r'⟩ := v
+          cases r' with
+          | none => simp [hpt] at hstep
+          | some x' =>
+            simp only [hpt] at hstep
+            by_cases hc : op' = op ∧ x' = x
+            · simp only [hc, and_self, if_true, Option.some.injEq] at hstep
+              subst hstep
+              have := ih _ S (by
+                intro u op'' h
+                by_cases e : u = t
+                · simp [e] at h
+                · simp only [e, if_false] at h; exact hS u op'' h) hrun1
+              simp [Ev.isLin] at this ⊢
+              omega
+            · simp [hc] at hstep
+      | lin t =>
+        simp only [LinSt.step] at hstep
+        cases hpt : st.pend t with
+        | none => simp [hpt] at hstep
+        | some v =>
+          obtain ⟨op, r⟩ := v
+          cases r with
+          | some x => simp [hpt] at hstep
+          | none =>
+            simp only [hpt, Option.some.injEq] at hstep
+            subst hstep
+            have hmem : t ∈ S := hS t op hpt
+            have := ih _ (S.erase t) (by
+              intro u op' h
+              by_cases e : u = t
+              · simp [e] at h
+              · simp only [e, if_false] at h
+                exact (List.mem_erase_of_ne e).mpr (hS u op' h)) hrun1
+            have hlen : (S.erase t).length = S.length - 1 := List.length_erase_of_mem hmem
+            have hpos : 0 < S.length := List.length_pos_of_mem hmem
+            simp [List.filter_cons, Ev.isLin] at this ⊢
+            omega
+
+theorem length_lin_split (l : List Ev) :
+    l.length = (l.filter Ev.isLin).length + (l.filter (fun e => !e.isLin)).length := by
+  induction l with
+  | nil => rfl
+  | cons e l ih => cases e <;> simp [List.filter_cons, Ev.isLin] at ih ⊢ <;> omega
+
+/-- **Refutation**: if the search with fuel `2 * length + 1` fails, the history is not linearizable. -/
+theorem not_linearizable_of_search (hist : List Ev)
+    (hs : linSearch (2 * hist.length + 1) Reg.init [] hist = false) : ¬ Linearizable hist := by
+  rintro ⟨l, hf, hrun⟩
+  have hb := lin_count_bound l LinSt.init [] (by intro u op h; simp [LinSt.init] at h) hrun
+  have hl := length_lin_split l
+  rw [hf] at hb hl
+  have := linSearch_complete l LinSt.init [] hist (2 * hist.length + 1) (fun u => rfl) hf hrun
+    (by simp at hb; omega)
+  rw [show LinSt.init.reg = Reg.init from rfl, hs] at this
+  exact absurd this (by simp)
+
+/-! ### witnesses: the hypotheses of `conc_linearizable` are needed, and satisfiable -/
+
+/-- **Why the handle discipline is needed** (a model artefact: the model lets a client name an instance before
+instantiate has handed it out). Even with all five switches repaired, an instance that loses the name race
+exists, open, for two actions before it is closed; `isClosed` on its handle in that window answers `false`,
+which the registry never does (it records the loser closed from the start). The history violates the
+discipline and is not linearizable. -/
+theorem stillborn_visible_witness :
+    let hist := history Cfg.repaired
+      (Conc.start [[.instantiate 1 1 .none, .instantiate 2 1 .none], [.isClosed 2]])
+      [0, 0, 0, 0, 0, 0, 0, 1, 1, 1, 0, 0, 0, 0]
+    hist = [.inv 0 (.instantiate 1 1 .none), .ret 0 (.instantiate 1 1 .none) .ok,
+            .inv 0 (.instantiate 2 1 .none), .inv 1 (.isClosed 2), .ret 1 (.isClosed 2) (.closedIs false),
+            .ret 0 (.instantiate 2 1 .none) .errDup] ∧
+    ¬ Disciplined hist ∧ ¬ Linearizable hist := by
+  refine ⟨by decide, by decide, ?_⟩
+  exact not_linearizable_of_search _ (by decide)
+
+/-- Second window: an instantiate that passed `failIfClosed` before the runtime was closed and reaches
+`registerModule` after it is refused, but leaves a (closed) record under its handle; the registry has no such
+record. A client that uses the handle of the refused request sees `closedIs true` instead of `bad`. -/
+theorem refused_record_witness :
+    let hist := history Cfg.repaired
+      (Conc.start [[.instantiate 1 1 .none, .isClosed 1], [.closeRuntime 0]])
+      [0, 0, 1, 1, 1, 0, 0, 0, 0, 0, 0, 0, 0]
+    hist = [.inv 0 (.instantiate 1 1 .none), .inv 1 (.closeRuntime 0), .ret 1 (.closeRuntime 0) .ok,
+            .ret 0 (.instantiate 1 1 .none) .errClosed, .inv 0 (.isClosed 1),
+            .ret 0 (.isClosed 1) (.closedIs true)] ∧
+    ¬ Disciplined hist ∧ ¬ Linearizable hist := by
+  refine ⟨by decide, by decide, ?_⟩
+  exact not_linearizable_of_search _ (by decide)
+
+/-- **Why the repairs are needed**: on the pinned tree (`Cfg.asIs`) the F10 schedule gives a history that
+respects the handle discipline and is NOT linearizable (same schedule as `double_close_witness`, now against the
+real-time definition `Linearizable`). -/
+theorem asis_not_linearizable_witness :
+    let hist := history Cfg.asIs
+      (Conc.start [[.instantiate 1 1 .none, .closeModule 1 0], [.closeModule 1 0, .lookup 1]])
+      [0, 0, 0, 0, 0, 0, 0, 1, 1, 1, 1, 1, 1, 0, 0, 0]
+    Disciplined hist ∧ ¬ Linearizable hist := by
+  refine ⟨by decide, ?_⟩
+  exact not_linearizable_of_search _ (by decide)
+
+/-- Non-vacuity of `conc_linearizable`: two threads closing the same module concurrently, a lookup in between;
+the history respects the discipline (so the theorem applies), all operations return, and the linearization the
+proof constructs puts thread 0's close before thread 1's close before the lookup. -/
+theorem conc_linearizable_example :
+    let progs : List (List Op) := [[.instantiate 1 1 .none, .closeModule 1 0], [.closeModule 1 0, .lookup 1]]
+    let sched := [0, 0, 0, 0, 0, 0, 1, 1, 1, 1, 1, 1, 0, 0, 1]
+    history Cfg.repaired (Conc.start progs) sched =
+      [.inv 0 (.instantiate 1 1 .none), .ret 0 (.instantiate 1 1 .none) .ok, .inv 0 (.closeModule 1 0),
+       .inv 1 (.closeModule 1 0), .ret 1 (.closeModule 1 0) .ok, .inv 1 (.lookup 1),
+       .ret 1 (.lookup 1) .notFound, .ret 0 (.closeModule 1 0) .ok] ∧
+    Disciplined (history Cfg.repaired (Conc.start progs) sched) ∧
+    Linearizable (history Cfg.repaired (Conc.start progs) sched) ∧
+    ltrace (Conc.start progs) sched =
+      [.inv 0 (.instantiate 1 1 .none), .lin 0, .ret 0 (.instantiate 1 1 .none) .ok, .inv 0 (.closeModule 1 0),
+       .lin 0, .inv 1 (.closeModule 1 0), .lin 1, .ret 1 (.closeModule 1 0) .ok, .inv 1 (.lookup 1), .lin 1,
+       .ret 1 (.lookup 1) .notFound, .ret 0 (.closeModule 1 0) .ok] := by
+  refine ⟨by decide, by decide, conc_linearizable _ _ (by decide), by decide⟩
 
 end Wz.C10
